@@ -417,6 +417,79 @@ T('C13', 'twin-salt-temp', PK, "        self.s2k.salt = bytearray(os.urandom(8))
 T('C13', 'twin-genkey-temp', CO, "    def gen_key(self):\n        return os.urandom(self.key_size // 8)", "    def gen_key(self):\n        nbytes = self.key_size // 8\n        return os.urandom(nbytes)")
 T('C13', 'twin-sessionkey-not-none', PGP, "        if sessionkey is None:\n            sessionkey = cipher_algo.gen_key()\n        skesk.encrypt_sk(passphrase, sessionkey)", "        if sessionkey is not None:\n            pass\n        else:\n            sessionkey = cipher_algo.gen_key()\n        skesk.encrypt_sk(passphrase, sessionkey)")
 
+# ---- C13 hardening: refactorings that must stay silent, and new mutants for the rewritten rules
+T('C13', 'twin-gen-iv-shift', CO, "    def gen_iv(self):\n        return os.urandom(self.block_size // 8)", "    def gen_iv(self):\n        noctets = self.block_size >> 3\n        return os.urandom(int(noctets))")
+M('C13', 'gen-iv-half-block', CO, "    def gen_iv(self):\n        return os.urandom(self.block_size // 8)", "    def gen_iv(self):\n        return os.urandom(self.block_size >> 4)", 'C13.1')
+KEY_ENC = ("        pkesk = PKESessionKeyV3()\n        pkesk.encrypter = bytearray(binascii.unhexlify(self.fingerprint.keyid.encode('latin-1')))\n        pkesk.pkalg = self.key_algorithm\n"
+           "        pkesk.encrypt_sk(self._key, cipher_algo, sessionkey)\n\n        if message.is_encrypted:  # pragma: no cover\n            _m = message\n\n        else:\n            _m = PGPMessage()\n"
+           "            skedata = IntegrityProtectedSKEDataV1()\n            skedata.encrypt(sessionkey, cipher_algo, message.__bytes__())\n            _m |= skedata\n\n        _m |= pkesk\n\n        return _m\n")
+T('C13', 'twin-key-encrypt-renamed-locals', PGP, KEY_ENC,
+  "        esk = PKESessionKeyV3()\n        esk.encrypter = bytearray(binascii.unhexlify(self.fingerprint.keyid.encode('latin-1')))\n        esk.pkalg = self.key_algorithm\n"
+  "        esk.encrypt_sk(self._key, symalg=cipher_algo, symkey=sessionkey)\n\n        if message.is_encrypted:  # pragma: no cover\n            out = message\n\n        else:\n            out = PGPMessage()\n"
+  "            container = IntegrityProtectedSKEDataV1()\n            serialised = message.__bytes__()\n            container.encrypt(sessionkey, cipher_algo, serialised)\n            out |= container\n\n        out |= esk\n\n        return out\n")
+M('C13', 'container-key-redrawn-when-generated', PGP, "        if sessionkey is None:\n            sessionkey = cipher_algo.gen_key()\n\n        # set up a new PKESessionKeyV3",
+  "        generated = sessionkey is None\n        if generated:\n            sessionkey = cipher_algo.gen_key()\n\n        # set up a new PKESessionKeyV3", 'C13.2',
+  more=[(PGP, "            skedata.encrypt(sessionkey, cipher_algo, message.__bytes__())", "            skedata.encrypt(cipher_algo.gen_key() if generated else sessionkey, cipher_algo, message.__bytes__())")])
+KB = ("        self.s2k.iv = enc_alg.gen_iv()\n        self.s2k.halg = hash_alg\n        self.s2k.salt = bytearray(os.urandom(8))\n        self.s2k.count = hash_alg.tuned_count\n")
+T('C13', 'twin-keyblob-temporaries', FL, "    def encrypt_keyblob(self, passphrase, enc_alg, hash_alg):", "    def encrypt_keyblob(self, passphrase, cipher, digest):",
+  more=[(FL, "        self.s2k.encalg = enc_alg\n", "        self.s2k.encalg = cipher\n"),
+        (FL, KB, "        fresh_iv = cipher.gen_iv()\n        self.s2k.iv = fresh_iv\n        self.s2k.halg = digest\n        fresh_salt = os.urandom(8)\n        self.s2k.salt = bytearray(fresh_salt)\n        self.s2k.count = digest.tuned_count\n"),
+        (FL, "        self.encbytes = bytearray(_encrypt(bytes(pt), bytes(sessionkey), enc_alg, bytes(self.s2k.iv)))", "        self.encbytes = bytearray(_encrypt(bytes(pt), bytes(sessionkey), cipher, iv=bytes(fresh_iv)))")])
+M('C13', 'keyblob-encrypts-under-second-iv', FL, "        self.encbytes = bytearray(_encrypt(bytes(pt), bytes(sessionkey), enc_alg, bytes(self.s2k.iv)))",
+  "        self.encbytes = bytearray(_encrypt(bytes(pt), bytes(sessionkey), enc_alg, bytes(enc_alg.gen_iv())))", 'C13.2')
+M('C13', 'keyblob-salt-after-derive', FL, "        self.s2k.salt = bytearray(os.urandom(8))\n        self.s2k.count = hash_alg.tuned_count\n", "        self.s2k.count = hash_alg.tuned_count\n", 'C13.2',
+  more=[(FL, "        sessionkey = self.s2k.derive_key(passphrase)\n        del passphrase\n\n        pt = bytearray()", "        sessionkey = self.s2k.derive_key(passphrase)\n        self.s2k.salt = bytearray(os.urandom(8))\n        del passphrase\n\n        pt = bytearray()")])
+T('C13', 'twin-skesk-salt-helper', PK, "        self.s2k.salt = bytearray(os.urandom(8))\n        esk = self.s2k.derive_key(passphrase)", "        self.s2k.salt = self._fresh_salt()\n        esk = self.s2k.derive_key(passphrase)",
+  more=[(PK, "    def encrypt_sk(self, passphrase, sk):\n        # generate the salt", "    @staticmethod\n    def _fresh_salt():\n        return bytearray(os.urandom(_SALT_OCTETS))\n\n    def encrypt_sk(self, passphrase, sk):\n        # generate the salt"),
+        (PK, "class SKESessionKeyV4(SKESessionKey):\n", "_SALT_OCTETS = 8\n\n\nclass SKESessionKeyV4(SKESessionKey):\n")])
+M('C13', 'skesk-salt-four-octets-doubled', PK, "        self.s2k.salt = bytearray(os.urandom(8))\n        esk = self.s2k.derive_key(passphrase)", "        self.s2k.salt = bytearray(os.urandom(4) * 2)\n        esk = self.s2k.derive_key(passphrase)", 'C13.2')
+T('C13', 'twin-seipd-params-renamed', PK, "    def encrypt(self, key, alg, data):\n        iv = alg.gen_iv()\n        data = iv + iv[-2:] + data\n",
+  "    def encrypt(self, sessionkey, cipher, data):\n        key, alg = sessionkey, cipher\n        rnd = alg.gen_iv()\n        data = b''.join([rnd, rnd[-2:], data])\n")
+ECDH_W = ("            v = ec.generate_private_key(km.oid.curve(), default_backend())\n            x = MPI(v.public_key().public_numbers().x)\n            y = MPI(v.public_key().public_numbers().y)\n"
+          "            ct.p = ECPoint.from_values(km.oid.key_size, ECPointFormat.Standard, x, y)\n            s = v.exchange(ec.ECDH(), km.__pubkey__())\n")
+T('C13', 'twin-ecdh-renamed-hoisted', FL, ECDH_W,
+  "            eph = ec.generate_private_key(km.oid.curve(), default_backend())\n            numbers = eph.public_key().public_numbers()\n            px, py = MPI(numbers.x), MPI(numbers.y)\n"
+  "            ct.p = ECPoint.from_values(km.oid.key_size, ECPointFormat.Standard, px, py)\n            recipient = km.__pubkey__()\n            s = eph.exchange(ec.ECDH(), recipient)\n")
+M('C13', 'ecdh-point-of-another-key', FL, ECDH_W,
+  "            v = ec.generate_private_key(km.oid.curve(), default_backend())\n            w = ec.generate_private_key(km.oid.curve(), default_backend())\n            x = MPI(w.public_key().public_numbers().x)\n            y = MPI(w.public_key().public_numbers().y)\n"
+  "            ct.p = ECPoint.from_values(km.oid.key_size, ECPointFormat.Standard, x, y)\n            s = v.exchange(ec.ECDH(), km.__pubkey__())\n", 'C13.2')
+M('C13', 'ecdh-exchange-with-own-point', FL, "            s = v.exchange(ec.ECDH(), km.__pubkey__())\n", "            s = v.exchange(ec.ECDH(), v.public_key())\n", 'C13.2')
+M('C13', 'ecdh-fixed-curve', FL, "            v = ec.generate_private_key(km.oid.curve(), default_backend())\n", "            v = ec.generate_private_key(ec.SECP256R1(), default_backend())\n", 'C13.2')
+M('C13', 'session-key-copy-kept', PGP, "        skesk.encrypt_sk(passphrase, sessionkey)\n        del passphrase", "        skesk.encrypt_sk(passphrase, sessionkey)\n        skesk._plain = bytes(sessionkey)\n        del passphrase", 'C13.3')
+M('C13', 'pkesk-keeps-m-value', PK, "        self.ct = self.ct.encrypt(encrypter, *encargs)\n        self.update_hlen()", "        self.ct = self.ct.encrypt(encrypter, *encargs)\n        self._m = bytes(m)\n        self.update_hlen()", 'C13.3')
+M('C13', 'seipd-returns-key', PK, "        self.ct = _encrypt(data, key, alg)\n        self.update_hlen()\n", "        self.ct = _encrypt(data, key, alg)\n        self.update_hlen()\n        return bytearray(key)\n", 'C13.3')
+T('C13', 'twin-pkesk-key-copied-for-sum', PK, "        m += self.int_to_bytes(sum(bytearray(symkey)) % 65536, 2)", "        octets = bytearray(symkey)\n        total = sum(octets)\n        m += self.int_to_bytes(total % 65536, 2)")
+
+T('C13', 'twin-source-passed-by-reference', PK, "        self.s2k.salt = bytearray(os.urandom(8))\n        esk = self.s2k.derive_key(passphrase)", "        self.s2k.salt = bytearray(_draw(8))\n        esk = self.s2k.derive_key(passphrase)",
+  more=[(PK, "class SKESessionKeyV4(SKESessionKey):\n", "def _draw(noctets, source=None):\n    return (source or os.urandom)(noctets) if source is not None else os.urandom(noctets)\n\n\nclass SKESessionKeyV4(SKESessionKey):\n")])
+M('C13', 'salt-default-argument', PK, "    def encrypt_sk(self, passphrase, sk):\n        # generate the salt and derive the key to encrypt sk with from it\n        self.s2k.salt = bytearray(os.urandom(8))",
+  "    def encrypt_sk(self, passphrase, sk, _salt=os.urandom(8)):\n        # generate the salt and derive the key to encrypt sk with from it\n        self.s2k.salt = bytearray(_salt)", 'C13.1')
+M('C13', 'class-level-prefix', PK, "    __ver__ = 1\n\n    def __init__(self):\n        super(IntegrityProtectedSKEDataV1, self).__init__()", "    __ver__ = 1\n    _prefix = SymmetricKeyAlgorithm.AES256.gen_iv()\n\n    def __init__(self):\n        super(IntegrityProtectedSKEDataV1, self).__init__()", 'C13.1')
+
+T('C13', 'twin-keyblob-chained-assign', FL, "        self.s2k.iv = enc_alg.gen_iv()\n        self.s2k.halg = hash_alg\n", "        self.s2k.iv = iv = enc_alg.gen_iv()\n        self.s2k.halg = hash_alg\n",
+  more=[(FL, "enc_alg, bytes(self.s2k.iv)))", "enc_alg, bytes(iv)))")])
+ECDH_X = ("            v = x25519.X25519PrivateKey.generate()\n            x = v.public_key().public_bytes(encoding=serialization.Encoding.Raw, format=serialization.PublicFormat.Raw)\n"
+          "            ct.p = ECPoint.from_values(km.oid.key_size, ECPointFormat.Native, x)\n            s = v.exchange(km.__pubkey__())\n")
+T('C13', 'twin-ecdh-arm-helper', FL, ECDH_X, "            ct.p, s = cls._x25519_agree(km)\n",
+  more=[(FL, "    @classmethod\n    def encrypt(cls, pk, *args):\n        \"\"\"\n        For convenience, the synopsis of the encoding method is given below;",
+         "    @staticmethod\n    def _x25519_agree(keymat):\n        eph = x25519.X25519PrivateKey.generate()\n        raw = eph.public_key().public_bytes(encoding=serialization.Encoding.Raw, format=serialization.PublicFormat.Raw)\n"
+         "        point = ECPoint.from_values(keymat.oid.key_size, ECPointFormat.Native, raw)\n        return point, eph.exchange(keymat.__pubkey__())\n\n"
+         "    @classmethod\n    def encrypt(cls, pk, *args):\n        \"\"\"\n        For convenience, the synopsis of the encoding method is given below;")])
+
+KEYSIZE_TABLE = '        ks = {SymmetricKeyAlgorithm.IDEA: 128,\n              SymmetricKeyAlgorithm.TripleDES: 192,\n              SymmetricKeyAlgorithm.CAST5: 128,\n              SymmetricKeyAlgorithm.Blowfish: 128,\n              SymmetricKeyAlgorithm.AES128: 128,\n              SymmetricKeyAlgorithm.AES192: 192,\n              SymmetricKeyAlgorithm.AES256: 256,\n              SymmetricKeyAlgorithm.Twofish256: 256,\n              SymmetricKeyAlgorithm.Camellia128: 128,\n              SymmetricKeyAlgorithm.Camellia192: 192,\n              SymmetricKeyAlgorithm.Camellia256: 256}\n\n        if self in ks:\n            return ks[self]\n\n        raise NotImplementedError(repr(self))\n'
+T('C13', 'twin-keysize-if-chain', CO, KEYSIZE_TABLE,
+  "        if self in (SymmetricKeyAlgorithm.IDEA, SymmetricKeyAlgorithm.CAST5, SymmetricKeyAlgorithm.Blowfish, SymmetricKeyAlgorithm.AES128, SymmetricKeyAlgorithm.Camellia128):\n            return 128\n\n"
+  "        if self in (SymmetricKeyAlgorithm.TripleDES, SymmetricKeyAlgorithm.AES192, SymmetricKeyAlgorithm.Camellia192):\n            return 192\n\n"
+  "        if self in {SymmetricKeyAlgorithm.AES256, SymmetricKeyAlgorithm.Twofish256, SymmetricKeyAlgorithm.Camellia256}:\n            return 256\n\n        raise NotImplementedError(repr(self))\n")
+M('C13', 'keysize-if-chain-aes192-in-128-arm', CO, KEYSIZE_TABLE,
+  "        if self in (SymmetricKeyAlgorithm.IDEA, SymmetricKeyAlgorithm.CAST5, SymmetricKeyAlgorithm.Blowfish, SymmetricKeyAlgorithm.AES128, SymmetricKeyAlgorithm.AES192, SymmetricKeyAlgorithm.Camellia128):\n            return 128\n\n"
+  "        if self in (SymmetricKeyAlgorithm.TripleDES, SymmetricKeyAlgorithm.Camellia192):\n            return 192\n\n"
+  "        if self in {SymmetricKeyAlgorithm.AES256, SymmetricKeyAlgorithm.Twofish256, SymmetricKeyAlgorithm.Camellia256}:\n            return 256\n\n        raise NotImplementedError(repr(self))\n", 'C13.1')
+T('C13', 'twin-keysize-get', CO, "        if self in ks:\n            return ks[self]\n\n        raise NotImplementedError(repr(self))\n\n    def gen_iv(self):",
+  "        size = ks.get(self)\n        if size is None:\n            raise NotImplementedError(repr(self))\n        return size\n\n    def gen_iv(self):")
+M('C13', 'keysize-tripledes-168', CO, "              SymmetricKeyAlgorithm.TripleDES: 192,\n              SymmetricKeyAlgorithm.CAST5: 128,", "              SymmetricKeyAlgorithm.TripleDES: 168,\n              SymmetricKeyAlgorithm.CAST5: 128,", 'C13.1')
+M('C03', 'cipher-aes256-bound-to-camellia', CO, "              SymmetricKeyAlgorithm.AES256: algorithms.AES,", "              SymmetricKeyAlgorithm.AES256: algorithms.Camellia,", 'C03.4')
+
 # =============================================================================================== C04
 MDC_G = "        if not constant_time.bytes_eq(bytes(pt[-22:]), _expected_mdcbytes):\n            raise PGPDecryptionError(\"Decryption failed\")  # pragma: no cover\n"
 M('C04', 'mdc-guard-deleted', PK, MDC_G, "", 'C04.1')
@@ -1210,6 +1283,97 @@ M('C04', 'ecdh-unpad-manual', FL, C04_ECD, """        return _m[:-_m[-1]]
 """, 'C04.7')
 M('C04', 'key-selection-alg-only-when-set', PGP, "                     and pk.pkalg == self.key_algorithm and pk.encrypter == self.fingerprint.keyid)", "                     and pk.pkalg == self.key_algorithm and (not pk.encrypter or pk.encrypter == self.fingerprint.keyid))", 'C04.6')
 M('C04', 'msg-filter-hasattr', PGP, "        for skesk in iter(sk for sk in self._sessionkeys if isinstance(sk, SKESessionKey)):", "        for skesk in iter(sk for sk in self._sessionkeys if hasattr(sk, 'decrypt_sk')):", 'C04.5')
+# ---- follow-up: C04.8 (message composition) and further mutant kinds (connectives, home-grown compare, store before check, widened handler, leniency flags)
+C04_OR_DATA = """        if isinstance(other, (LiteralData, SKEData, IntegrityProtectedSKEData)):
+            if self._message is None:
+                self._message = other
+                return self
+
+"""
+T('C04', 'twin-or-explicit-duplicate-raise', PGP, C04_OR_DATA, """        if isinstance(other, (LiteralData, SKEData, IntegrityProtectedSKEData)):
+            if self._message is not None:
+                raise NotImplementedError("second data packet: " + str(type(other)))
+            self._message = other
+            return self
+
+""")
+T('C04', 'twin-or-combined-condition', PGP, C04_OR_DATA, """        is_data = isinstance(other, LiteralData) or isinstance(other, SKEData) or isinstance(other, IntegrityProtectedSKEData)
+        if is_data and self._message is None:
+            self._message = other
+            return self
+
+""")
+M('C04', 'or-second-data-packet-dropped', PGP, C04_OR_DATA, """        if isinstance(other, (LiteralData, SKEData, IntegrityProtectedSKEData)):
+            if self._message is None:
+                self._message = other
+                return self
+
+            warnings.warn("Discarded unexpected packet: {:s}".format(other.__class__.__name__), stacklevel=2)
+            return self
+
+""", 'C04.8')
+M('C04', 'or-last-data-packet-wins', PGP, C04_OR_DATA, """        if isinstance(other, (LiteralData, SKEData, IntegrityProtectedSKEData)):
+            self._message = other
+            return self
+
+""", 'C04.8')
+M('C04', 'or-literal-after-encrypted-tolerated', PGP, C04_OR_DATA, """        if isinstance(other, (LiteralData, SKEData, IntegrityProtectedSKEData)):
+            if self._message is None:
+                self._message = other
+                return self
+
+            if isinstance(other, LiteralData):
+                return self
+
+""", 'C04.8')
+M('C04', 'or-text-overwrites', PGP, "        if isinstance(other, (str, bytes, bytearray)):\n            if self._message is None:\n                self._message = self.text_to_bytes(other)\n                return self\n", "        if isinstance(other, (str, bytes, bytearray)):\n            self._message = self.text_to_bytes(other)\n            return self\n", 'C04.8')
+
+# ---- further mutant kinds
+M('C04', 'seipd-not-a-or-b', PK, C04_SEIPD, """        pt = _decrypt(bytes(self.ct), bytes(key), alg)
+        bs = alg.block_size // 8
+        mdc_ok = constant_time.bytes_eq(bytes(pt[-22:]), b'\\xd3\\x14' + hashlib.new('SHA1', pt[:-20]).digest())
+        prefix_ok = constant_time.bytes_eq(bytes(pt[bs - 2:bs]), bytes(pt[bs:bs + 2]))
+        if not (mdc_ok or prefix_ok):
+            raise PGPDecryptionError("Decryption failed")
+        return pt[bs + 2:]
+""", 'C04.1')
+M('C04', 'keyblob-usage-or-trailer', FL, "        if self.s2k.usage == 254 and not pt[-20:] == hashlib.new('sha1', pt[:-20]).digest():", "        if not (self.s2k.usage == 254 or pt[-20:] == hashlib.new('sha1', pt[:-20]).digest()):", 'C04.4')
+M('C04', 'seipd-homegrown-compare-assign', PK, "        if not constant_time.bytes_eq(bytes(pt[-22:]), _expected_mdcbytes):\n            raise PGPDecryptionError(\"Decryption failed\")  # pragma: no cover\n",
+  "        diff = 0\n        for x, y in zip(bytes(pt[-22:]), _expected_mdcbytes):\n            diff = x ^ y\n        if diff != 0:\n            raise PGPDecryptionError(\"Decryption failed\")  # pragma: no cover\n", 'C04.1')
+M('C04', 'keyblob-stored-before-check', FL, "        # check the hash to see if we decrypted successfully or not\n        if self.s2k.usage == 254", "        self._cleartext = bytearray(pt)\n\n        # check the hash to see if we decrypted successfully or not\n        if self.s2k.usage == 254", 'C04.4')
+M('C04', 'keyblob-usage-cleared-early', FL, "        # check the hash to see if we decrypted successfully or not\n        if self.s2k.usage == 254", "        usage, self.s2k.usage = self.s2k.usage, 0\n\n        # check the hash to see if we decrypted successfully or not\n        if self.s2k.usage == 254", 'C04.4')
+M('C04', 'seipd-stored-before-check', PK, "        pt = _decrypt(bytes(self.ct), bytes(key), alg)\n\n        # do the MDC checks", "        pt = _decrypt(bytes(self.ct), bytes(key), alg)\n        self._plaintext = pt[:]\n\n        # do the MDC checks", 'C04.1')
+M('C04', 'key-outer-handler-swallows', PGP, "        decmsg = PGPMessage()\n        decmsg.parse(message.message.decrypt(key, alg))\n\n        return decmsg\n\n    def parse(self, data):", "        decmsg = PGPMessage()\n        try:\n            decmsg.parse(message.message.decrypt(key, alg))\n        except PGPError as exc:\n            warnings.warn(str(exc))\n\n        return decmsg\n\n    def parse(self, data):", 'C04.6')
+M('C04', 'msg-handler-widened-around-loop', PGP, C04_MSG_LOOP, """        decmsg = PGPMessage()
+        try:
+            for skesk in iter(sk for sk in self._sessionkeys if isinstance(sk, SKESessionKey)):
+                symalg, key = skesk.decrypt_sk(passphrase)
+                decmsg.parse(self.message.decrypt(key, symalg))
+                break
+
+            else:
+                raise PGPDecryptionError("Decryption failed")
+
+        except (TypeError, ValueError, NotImplementedError):
+            raise PGPDecryptionError("Decryption failed")
+
+        except PGPError:
+            pass
+
+        return decmsg
+""", 'C04.5')
+M('C04', 'seipd-lenient-default-true', PK, "    def decrypt(self, key, alg):\n        # iv, ivl2, pt = super(IntegrityProtectedSKEDataV1, self).decrypt(key, alg)", "    def decrypt(self, key, alg, lenient=True):\n        # iv, ivl2, pt = super(IntegrityProtectedSKEDataV1, self).decrypt(key, alg)", 'C04.1',
+  more=[(PK, "        if not constant_time.bytes_eq(bytes(pt[-22:]), _expected_mdcbytes):\n            raise", "        if not constant_time.bytes_eq(bytes(pt[-22:]), _expected_mdcbytes) and not lenient:\n            raise")])
+M('C04', 'seipd-strict-constant-false', PK, "        if not constant_time.bytes_eq(bytes(pt[-22:]), _expected_mdcbytes):\n            raise", "        if self._STRICT_MDC and not constant_time.bytes_eq(bytes(pt[-22:]), _expected_mdcbytes):\n            raise", 'C04.1',
+  more=[(PK, "    def decrypt(self, key, alg):\n        # iv, ivl2, pt = super(IntegrityProtectedSKEDataV1, self).decrypt(key, alg)", "    _STRICT_MDC = False\n\n    def decrypt(self, key, alg):\n        # iv, ivl2, pt = super(IntegrityProtectedSKEDataV1, self).decrypt(key, alg)")])
+M('C04', 'keyblob-verify-default-false', FL, "    def decrypt_keyblob(self, passphrase):\n        if not self.s2k:  # pragma: no cover", "    def decrypt_keyblob(self, passphrase, verify=False):\n        if not self.s2k:  # pragma: no cover", 'C04.4',
+  more=[(FL, "        if self.s2k.usage == 254 and not pt[-20:] == hashlib.new('sha1', pt[:-20]).digest():", "        if verify and self.s2k.usage == 254 and not pt[-20:] == hashlib.new('sha1', pt[:-20]).digest():")])
+M('C04', 'ecdh-strict-flag', FL, C04_ECD, """        padder = PKCS7(64).unpadder()
+        data = padder.update(_m)
+        if getattr(pk, 'strict_padding', False):
+            data += padder.finalize()
+        return data
+""", 'C04.7')
 
 # =============================================================================================== C03
 M('C03', 'checksum-65535', PK, "        m += self.int_to_bytes(sum(bytearray(symkey)) % 65536, 2)", "        m += self.int_to_bytes(sum(bytearray(symkey)) % 65535, 2)", 'C03.1')
@@ -1236,6 +1400,437 @@ M('C03', 'encrypters-unfiltered', PGP, "        return set(m.encrypter for m in 
 T('C03', 'twin-kdf-join', FL, "        data += b'\\x03\\x01'\n        data.append(self.halg)", "        data += b'\\x03'\n        data += b'\\x01'\n        data.append(self.halg)")
 T('C03', 'twin-m-temp', PK, "        m = bytearray(self.int_to_bytes(symalg) + symkey)\n        m += self.int_to_bytes(sum(bytearray(symkey)) % 65536, 2)", "        chk = sum(bytearray(symkey)) % 65536\n        m = bytearray(self.int_to_bytes(symalg) + symkey + self.int_to_bytes(chk, 2))")
 T('C03', 'twin-iv-name', PK, "        iv = alg.gen_iv()\n        data = iv + iv[-2:] + data", "        prefix = alg.gen_iv()\n        data = prefix + prefix[-2:] + data")
+
+# ---- C03 hardening: behaviour-preserving refactorings of the anchored functions (must stay silent) and one new mutant per rewritten rule
+PKESK_ENC = ("    def encrypt_sk(self, pk, symalg, symkey):\n        m = bytearray(self.int_to_bytes(symalg) + symkey)\n        m += self.int_to_bytes(sum(bytearray(symkey)) % 65536, 2)\n\n"
+             "        if self.pkalg == PubKeyAlgorithm.RSAEncryptOrSign:\n            encrypter = pk.keymaterial.__pubkey__().encrypt\n            encargs = (bytes(m), padding.PKCS1v15(),)\n\n"
+             "        elif self.pkalg == PubKeyAlgorithm.ECDH:\n            encrypter = pk\n            encargs = (bytes(m),)\n\n        else:\n            raise NotImplementedError(self.pkalg)\n\n"
+             "        self.ct = self.ct.encrypt(encrypter, *encargs)\n        self.update_hlen()\n")
+T('C03', 'twin-pkesk-params-renamed', PK, PKESK_ENC,
+  "    def encrypt_sk(self, recipient, cipher, sessionkey):\n        body = [self.int_to_bytes(cipher), sessionkey, self.int_to_bytes(sum(bytearray(sessionkey)) & 0xFFFF, 2)]\n        mval = bytes(b''.join(body))\n\n"
+  "        if self.pkalg == PubKeyAlgorithm.RSAEncryptOrSign:\n            self.ct = self.ct.encrypt(recipient.keymaterial.__pubkey__().encrypt, mval, padding.PKCS1v15())\n\n"
+  "        elif self.pkalg == PubKeyAlgorithm.ECDH:\n            self.ct = self.ct.encrypt(recipient, mval)\n\n        else:\n            raise NotImplementedError(self.pkalg)\n\n        self.update_hlen()\n")
+T('C03', 'twin-pkesk-checksum-shift', PK, "        m += self.int_to_bytes(sum(bytearray(symkey)) % 65536, 2)", "        m += self.int_to_bytes(sum(bytearray(symkey)) % (1 << 16), 2)")
+M('C03', 'checksum-mask-fff', PK, "        m += self.int_to_bytes(sum(bytearray(symkey)) % 65536, 2)", "        m += self.int_to_bytes(sum(bytearray(symkey)) & 0xFFF, 2)", 'C03.1')
+M('C03', 'm-value-key-first', PK, "        m = bytearray(self.int_to_bytes(symalg) + symkey)\n        m += self.int_to_bytes(sum(bytearray(symkey)) % 65536, 2)",
+  "        m = bytearray(symkey + self.int_to_bytes(symalg))\n        m += self.int_to_bytes(sum(bytearray(symkey)) % 65536, 2)", 'C03.1')
+M('C03', 'ecdh-arm-wraps-for-keymaterial', PK, "            encrypter = pk\n            encargs = (bytes(m),)", "            encrypter = pk.keymaterial\n            encargs = (bytes(m),)", 'C03.1')
+T('C03', 'twin-rsa-pad-rjust', PK, "            ct = b'\\x00' * ((pk.keymaterial.__privkey__().key_size // 8) - len(ct)) + ct\n", "            ct = ct.rjust(pk.keymaterial.__privkey__().key_size >> 3, b'\\x00')\n")
+M('C03', 'rsa-pad-one-short', PK, "            ct = b'\\x00' * ((pk.keymaterial.__privkey__().key_size // 8) - len(ct)) + ct\n", "            ct = b'\\x00' * ((pk.keymaterial.__privkey__().key_size // 8) - len(ct) - 1) + ct\n", 'C03.1')
+SEIPD_ENC = ("    def encrypt(self, key, alg, data):\n        iv = alg.gen_iv()\n        data = iv + iv[-2:] + data\n\n        mdc = MDC()\n        mdc.mdc = binascii.hexlify(hashlib.new('SHA1', data + b'\\xd3\\x14').digest())\n"
+             "        mdc.update_hlen()\n\n        data += mdc.__bytes__()\n        self.ct = _encrypt(data, key, alg)\n        self.update_hlen()\n")
+T('C03', 'twin-seipd-renamed-sha1', PK, SEIPD_ENC,
+  "    def encrypt(self, sessionkey, cipher, plaintext):\n        prefix = cipher.gen_iv()\n        body = b''.join([prefix, prefix[-2:], plaintext])\n\n        digest = hashlib.sha1(body)\n        digest.update(b'\\xd3')\n        digest.update(b'\\x14')\n"
+  "        trailer = MDC()\n        trailer.mdc = binascii.hexlify(digest.digest())\n        trailer.update_hlen()\n\n        self.ct = _encrypt(body + trailer.__bytes__(), sessionkey, cipher)\n        self.update_hlen()\n")
+M('C03', 'seipd-mdc-stale-header', PK, "        mdc.update_hlen()\n\n        data += mdc.__bytes__()", "        data += mdc.__bytes__()\n        mdc.update_hlen()", 'C03.2')
+M('C03', 'seipd-two-iv-draws', PK, "        data = iv + iv[-2:] + data\n\n        mdc = MDC()", "        data = iv + alg.gen_iv()[-2:] + data\n\n        mdc = MDC()", 'C03.2')
+M('C03', 'old-format-default', TY, "        self._lenfmt = 1\n", "        self._lenfmt = 0\n", 'C03.2')
+T('C03', 'twin-skesk-encalg-direct', PK, "        esk = self.s2k.derive_key(passphrase)\n        del passphrase\n\n        self.ct = _encrypt(self.int_to_bytes(self.symalg) + sk, esk, self.symalg)",
+  "        kek = self.s2k.derive_key(passphrase)\n        del passphrase\n\n        cipher = self.s2k.encalg\n        self.ct = _encrypt(b''.join([self.int_to_bytes(cipher), sk]), kek, cipher, iv=None)")
+T('C03', 'twin-skesk-reader-slices', PK, "        symalg = SymmetricKeyAlgorithm(m[0])\n        del m[0]\n\n        return symalg, bytes(m)", "        return SymmetricKeyAlgorithm(m[0]), bytes(m[1:])")
+M('C03', 'skesk-kek-for-other-cipher', PK, "        self.ct = _encrypt(self.int_to_bytes(self.symalg) + sk, esk, self.symalg)", "        self.ct = _encrypt(self.int_to_bytes(self.symalg) + sk, esk, SymmetricKeyAlgorithm.AES128)", 'C03.3')
+SKESK_PARSE = ("        packet.insert(0, 255)\n        self.s2k.parse(packet, iv=False)\n\n        ctend = self.header.length - len(self.s2k)\n        self.ct = packet[:ctend]\n        del packet[:ctend]\n")
+T('C03', 'twin-skesk-parse-spelling', PK, SKESK_PARSE,
+  "        packet.insert(0, 0xFF)\n        self.s2k.parse(packet, False)\n\n        remaining = -len(self.s2k) + self.header.length\n        self.ct, tail = packet[:remaining], None\n        del packet[0:remaining]\n")
+M('C03', 'skesk-parse-usage-254', PK, "        packet.insert(0, 255)\n        self.s2k.parse(packet, iv=False)", "        packet.insert(0, 254)\n        self.s2k.parse(packet, iv=False)", 'C03.3')
+M('C03', 'skesk-parse-reads-iv', PK, "        packet.insert(0, 255)\n        self.s2k.parse(packet, iv=False)", "        packet.insert(0, 255)\n        self.s2k.parse(packet)", 'C03.3')
+M('C03', 'skesk-parse-ct-one-long', PK, "        ctend = self.header.length - len(self.s2k)\n        self.ct = packet[:ctend]", "        ctend = self.header.length - len(self.s2k) + 1\n        self.ct = packet[:ctend]", 'C03.3')
+T('C03', 'twin-symenc-keywords', SE, "        encryptor = Cipher(alg.cipher(key), modes.CFB(iv), default_backend()).encryptor()\n", "        cipher = Cipher(algorithm=alg.cipher(key), mode=modes.CFB(iv), backend=default_backend())\n        encryptor = cipher.encryptor()\n",
+  more=[(SE, "        return bytearray(encryptor.update(pt) + encryptor.finalize())", "        head = encryptor.update(pt)\n        return bytearray(b''.join([head, encryptor.finalize()]))"),
+        (SE, "def _encrypt(pt, key, alg, iv=None):\n    if iv is None:\n        iv = b'\\x00' * (alg.block_size // 8)\n", "def _encrypt(pt, key, alg, iv=None):\n    iv = b'\\x00' * (alg.block_size >> 3) if iv is None else iv\n")])
+T('C03', 'twin-symenc-params-renamed', SE, "def _decrypt(ct, key, alg, iv=None):", "def _decrypt(ciphertext, sessionkey, cipher, nonce=None):",
+  more=[(SE, "        iv = b'\\x00' * (alg.block_size // 8)\n\n    try:\n        decryptor = Cipher(alg.cipher(key), modes.CFB(iv), default_backend()).decryptor()", "        nonce = b'\\x00' * (cipher.block_size // 8)\n\n    try:\n        decryptor = Cipher(cipher.cipher(sessionkey), modes.CFB(nonce), default_backend()).decryptor()"),
+        (SE, "def _decrypt(ciphertext, sessionkey, cipher, nonce=None):\n    if iv is None:", "def _decrypt(ciphertext, sessionkey, cipher, nonce=None):\n    if nonce is None:"),
+        (SE, "        return bytearray(decryptor.update(ct) + decryptor.finalize())", "        return bytearray(decryptor.update(ciphertext) + decryptor.finalize())")])
+M('C03', 'decrypt-ofb-mode', SE, "        decryptor = Cipher(alg.cipher(key), modes.CFB(iv), default_backend()).decryptor()", "        decryptor = Cipher(alg.cipher(key), modes.OFB(iv), default_backend()).decryptor()", 'C03.4')
+M('C03', 'encrypt-no-finalize', SE, "        return bytearray(encryptor.update(pt) + encryptor.finalize())", "        return bytearray(encryptor.update(pt))", 'C03.4')
+M('C03', 'encrypt-iv-blocksize-bits', SE, "        iv = b'\\x00' * (alg.block_size // 8)\n\n    if alg.is_insecure:", "        iv = b'\\x00' * (alg.block_size // 4)\n\n    if alg.is_insecure:", 'C03.4')
+KDF_BODY = ("        data = bytearray()\n        data += encoder.encode(curve.value)[1:]\n        data.append(pkalg)\n        data += b'\\x03\\x01'\n        data.append(self.halg)\n        data.append(self.encalg)\n"
+            "        data += b'Anonymous Sender    '\n        data += binascii.unhexlify(fingerprint.replace(' ', ''))\n\n"
+            "        ckdf = ConcatKDFHash(algorithm=getattr(hashes, self.halg.name)(), length=self.encalg.key_size // 8, otherinfo=bytes(data), backend=default_backend())\n        return ckdf.derive(s)\n")
+T('C03', 'twin-kdf-join-positional', FL, "    def derive_key(self, s, curve, pkalg, fingerprint):", "    def derive_key(self, secret, oid, algid, fpr):",
+  more=[(FL, KDF_BODY, "        oid_der = encoder.encode(oid.value)[1:]\n        param = b''.join([oid_der, bytearray([algid, 0x03, 0x01, self.halg, self.encalg]), b'Anonymous Sender' + b' ' * 4,\n                          binascii.unhexlify(fpr.replace(' ', ''))])\n"
+         "        zlen = self.encalg.key_size >> 3\n        return ConcatKDFHash(getattr(hashes, self.halg.name)(), zlen, param, default_backend()).derive(secret)\n")])
+M('C03', 'kdf-length-blocksize', FL, "length=self.encalg.key_size // 8, otherinfo=bytes(data)", "length=self.encalg.block_size // 8, otherinfo=bytes(data)", 'C03.5')
+M('C03', 'kdf-hash-fixed-sha256', FL, "ConcatKDFHash(algorithm=getattr(hashes, self.halg.name)(), length=", "ConcatKDFHash(algorithm=hashes.SHA256(), length=", 'C03.5')
+M('C03', 'kdf-param-oid-with-tag', FL, "        data += encoder.encode(curve.value)[1:]\n", "        data += encoder.encode(curve.value)\n", 'C03.5')
+T('C03', 'twin-ecdh-derive-keywords', FL, "        # derive the wrapping key\n        z = km.kdf.derive_key(s, km.oid, PubKeyAlgorithm.ECDH, pk.fingerprint)\n\n        # compute C\n        ct.c = aes_key_wrap(z, m, default_backend())",
+  "        # derive the wrapping key\n        kek = km.kdf.derive_key(s, curve=km.oid, pkalg=PubKeyAlgorithm.ECDH, fingerprint=pk.fingerprint)\n\n        # compute C\n        ct.c = aes_key_wrap(wrapping_key=kek, key_to_wrap=m, backend=default_backend())",
+  more=[(FL, "        padder = PKCS7(64).padder()\n        m = padder.update(_m) + padder.finalize()", "        pkcs5 = PKCS7(block_size=64).padder()\n        m = b''.join([pkcs5.update(_m), pkcs5.finalize()])")])
+M('C03', 'ecdh-decrypt-unwraps-with-oid-of-subkey', FL, "        # derive the wrapping key\n        z = km.kdf.derive_key(s, km.oid, PubKeyAlgorithm.ECDH, pk.fingerprint)\n\n        # unwrap and unpad m",
+  "        # derive the wrapping key\n        z = km.kdf.derive_key(s, km.oid, pk.pkalg, pk.fingerprint)\n\n        # unwrap and unpad m", 'C03.5')
+M('C03', 'ecdh-decrypt-pads-instead-of-unpads', FL, "        padder = PKCS7(64).unpadder()\n        return padder.update(_m) + padder.finalize()", "        padder = PKCS7(64).padder()\n        return padder.update(_m) + padder.finalize()", 'C03.5')
+M('C03', 'ecdh-unwrap-skips-first-octet', FL, "        _m = aes_key_unwrap(z, self.c, default_backend())", "        _m = aes_key_unwrap(z, self.c[1:], default_backend())", 'C03.5')
+T('C03', 'twin-compress-eq-elif', CO, "        if self is CompressionAlgorithm.ZIP:\n            return zlib.compress(data)[2:-4]\n\n        if self is CompressionAlgorithm.ZLIB:\n            return zlib.compress(data)\n",
+  "        if self is CompressionAlgorithm.ZIP:\n            deflated = zlib.compress(data)\n            return deflated[2:][:-4]\n\n        elif self is CompressionAlgorithm.ZLIB:\n            return zlib.compress(data)\n")
+M('C03', 'zlib-arm-returns-raw-deflate', CO, "        if self is CompressionAlgorithm.ZLIB:\n            return zlib.compress(data)\n", "        if self is CompressionAlgorithm.ZLIB:\n            return zlib.compress(data)[2:-4]\n", 'C03.6')
+MSG_ENC = ("        if sessionkey is None:\n            sessionkey = cipher_algo.gen_key()\n        skesk.encrypt_sk(passphrase, sessionkey)\n        del passphrase\n\n        msg = PGPMessage() | skesk\n\n"
+           "        if not self.is_encrypted:\n            skedata = IntegrityProtectedSKEDataV1()\n            skedata.encrypt(sessionkey, cipher_algo, self.__bytes__())\n            msg |= skedata\n")
+T('C03', 'twin-msg-encrypt-renamed-keywords', PGP, MSG_ENC,
+  "        sk = cipher_algo.gen_key() if sessionkey is None else sessionkey\n        skesk.encrypt_sk(passphrase, sk=sk)\n        del passphrase\n\n        msg = PGPMessage() | skesk\n\n"
+  "        if not self.is_encrypted:\n            container = IntegrityProtectedSKEDataV1()\n            container.encrypt(key=sk, alg=cipher_algo, data=bytes(self))\n            msg |= container\n")
+M('C03', 'msg-encrypt-skesk-other-cipher', PGP, "        skesk.s2k.encalg = cipher_algo\n", "        skesk.s2k.encalg = SymmetricKeyAlgorithm.AES256\n", 'C03.7')
+M('C03', 'key-encrypt-container-holds-inner-message', PGP, "            skedata.encrypt(sessionkey, cipher_algo, message.__bytes__())", "            skedata.encrypt(sessionkey, cipher_algo, message.message.__bytes__())", 'C03.7')
+SEL = ("        pkesk = next(pk for pk in message._sessionkeys if isinstance(pk, PKESessionKey)\n                     and pk.pkalg == self.key_algorithm and pk.encrypter == self.fingerprint.keyid)\n")
+T('C03', 'twin-selection-reordered', PGP, SEL,
+  "        mine = self.fingerprint.keyid\n        candidates = [esk for esk in message._sessionkeys if isinstance(esk, PKESessionKey)\n                      if not (mine != esk.encrypter or esk.pkalg != self.key_algorithm)]\n        pkesk = next(iter(candidates))\n")
+T('C03', 'twin-decrypt-loop-guard-clauses', PGP, "        for skesk in iter(sk for sk in self._sessionkeys if isinstance(sk, SKESessionKey)):\n            try:\n                symalg, key = skesk.decrypt_sk(passphrase)",
+  "        for skesk in self._sessionkeys:\n            if isinstance(skesk, PKESessionKey):\n                continue\n            try:\n                symalg, key = skesk.decrypt_sk(passphrase)")
+T('C03', 'twin-encrypters-loop', PGP, "        return set(m.encrypter for m in self._sessionkeys if isinstance(m, PKESessionKey))",
+  "        ids = set()\n        for esk in self._sessionkeys:\n            if not isinstance(esk, PKESessionKey):\n                continue\n            ids.add(esk.encrypter)\n        return ids")
+M('C03', 'encrypters-loop-wrong-class-guard', PGP, "        return set(m.encrypter for m in self._sessionkeys if isinstance(m, PKESessionKey))",
+  "        ids = set()\n        for esk in self._sessionkeys:\n            if isinstance(esk, PKESessionKey):\n                continue\n            ids.add(esk.encrypter)\n        return ids", 'C03.8')
+M('C03', 'encrypters-filter-after-read', PGP, "        return set(m.encrypter for m in self._sessionkeys if isinstance(m, PKESessionKey))",
+  "        return set(m.encrypter for m in self._sessionkeys if m.encrypter and isinstance(m, PKESessionKey))", 'C03.8')
+M('C03', 'selection-or-keyid', PGP, SEL, "        pkesk = next(pk for pk in message._sessionkeys if isinstance(pk, PKESessionKey)\n                     and (pk.pkalg == self.key_algorithm or pk.encrypter == self.fingerprint.keyid))\n", 'C03.8')
+M('C03', 'selection-keyid-negated', PGP, SEL, "        pkesk = next(pk for pk in message._sessionkeys if isinstance(pk, PKESessionKey)\n                     and pk.pkalg == self.key_algorithm and pk.encrypter != self.fingerprint.keyid)\n", 'C03.8')
+
+SEL2 = SEL + "        alg, key = pkesk.decrypt_sk(self._key)\n"
+T('C03', 'twin-selection-loop-break', PGP, SEL,
+  "        pkesk = None\n        for pk in message._sessionkeys:\n            if isinstance(pk, PKESessionKey) and pk.pkalg == self.key_algorithm and pk.encrypter == self.fingerprint.keyid:\n                pkesk = pk\n                break\n")
+T('C03', 'twin-selection-loop-guard-clauses', PGP, SEL2,
+  "        wanted = self.fingerprint.keyid\n        for candidate in message._sessionkeys:\n            if not isinstance(candidate, PKESessionKey):\n                continue\n            if candidate.pkalg != self.key_algorithm or wanted != candidate.encrypter:\n                continue\n"
+  "            alg, key = candidate.decrypt_sk(self._key)\n            break\n        else:\n            raise StopIteration()\n")
+T('C03', 'twin-selection-chained-lists', PGP, SEL,
+  "        pkesks = [pk for pk in message._sessionkeys if isinstance(pk, PKESessionKey)]\n        mine = [pk for pk in pkesks if pk.encrypter == self.fingerprint.keyid]\n        pkesk = [pk for pk in mine if pk.pkalg == self.key_algorithm][0]\n")
+T('C03', 'twin-encrypters-checked-once', PGP, "        if self.fingerprint.keyid not in message.encrypters:\n            sks = set(self.subkeys)\n            mis = set(message.encrypters)\n",
+  "        mis = set(message.encrypters)\n        if self.fingerprint.keyid not in mis:\n            sks = set(self.subkeys)\n")
+M('C03', 'selection-loop-any-pkesk-of-algorithm', PGP, SEL,
+  "        pkesk = None\n        for pk in message._sessionkeys:\n            if isinstance(pk, PKESessionKey) and pk.pkalg == self.key_algorithm:\n                pkesk = pk\n                break\n", 'C03.8')
+M('C03', 'selection-loop-guard-skips-own-keyid', PGP, SEL2,
+  "        wanted = self.fingerprint.keyid\n        for candidate in message._sessionkeys:\n            if not isinstance(candidate, PKESessionKey):\n                continue\n            if candidate.pkalg != self.key_algorithm or wanted == candidate.encrypter:\n                continue\n"
+  "            alg, key = candidate.decrypt_sk(self._key)\n            break\n        else:\n            raise StopIteration()\n", 'C03.8')
+M('C03', 'selection-first-pkesk', PGP, SEL, "        pkesk = [pk for pk in message._sessionkeys if isinstance(pk, PKESessionKey)][0]\n", 'C03.8')
+M('C03', 'selection-loop-no-class-filter', PGP, SEL,
+  "        pkesk = None\n        for pk in message._sessionkeys:\n            if pk.pkalg == self.key_algorithm and pk.encrypter == self.fingerprint.keyid:\n                pkesk = pk\n                break\n", 'C03.8')
+
+T('C03', 'twin-seipd-bytes-of-mdc', PK, SEIPD_ENC,
+  "    def encrypt(self, key, alg, data):\n        iv = alg.gen_iv()\n        quick = iv[-2:]\n        sha = hashlib.new('SHA1')\n        for part in (iv, quick, data, b'\\xd3\\x14'):\n            sha.update(part)\n\n"
+  "        mdc = MDC()\n        mdc.mdc = binascii.hexlify(sha.digest())\n        mdc.update_hlen()\n\n        self.ct = _encrypt(iv + quick + data + bytes(mdc), key, alg)\n        self.update_hlen()\n")
+T('C03', 'twin-msg-encrypt-skesk-helper', PGP, "        skesk = SKESessionKeyV4()\n        skesk.s2k.usage = 255\n        skesk.s2k.specifier = 3\n        skesk.s2k.halg = hash_algo\n        skesk.s2k.encalg = cipher_algo\n        skesk.s2k.count = skesk.s2k.halg.tuned_count\n",
+  "        skesk = self._fresh_skesk(hash_algo, cipher_algo)\n",
+  more=[(PGP, "    def encrypt(self, passphrase, sessionkey=None, **prefs):\n        \"\"\"\n        encrypt(passphrase, [sessionkey=None,] **prefs)",
+         "    @staticmethod\n    def _fresh_skesk(digest, cipher):\n        esk = SKESessionKeyV4()\n        esk.s2k.usage = 255\n        esk.s2k.specifier = 3\n        esk.s2k.halg = digest\n        esk.s2k.encalg = cipher\n        esk.s2k.count = esk.s2k.halg.tuned_count\n        return esk\n\n"
+         "    def encrypt(self, passphrase, sessionkey=None, **prefs):\n        \"\"\"\n        encrypt(passphrase, [sessionkey=None,] **prefs)")])
+T('C03', 'twin-pkesk-decrypt-privkey-local', PK, "            ct = self.ct.me_mod_n.to_mpibytes()[2:]\n            ct = b'\\x00' * ((pk.keymaterial.__privkey__().key_size // 8) - len(ct)) + ct\n\n            decrypter = pk.keymaterial.__privkey__().decrypt\n            decargs = (ct, padding.PKCS1v15(),)\n",
+  "            priv = pk.keymaterial.__privkey__()\n            modlen = priv.key_size // 8\n            raw = self.ct.me_mod_n.to_mpibytes()[2:]\n            padded = b'\\x00' * (modlen - len(raw)) + raw\n\n            decrypter = priv.decrypt\n            decargs = (padded, padding.PKCS1v15())\n")
+T('C03', 'twin-ecdh-encrypt-direct-class', FL, "        padder = PKCS7(64).padder()\n        m = padder.update(_m) + padder.finalize()\n\n        km = pk.keymaterial\n        ct = cls()\n",
+  "        padder = PKCS7(64).padder()\n        m = padder.update(_m)\n        m += padder.finalize()\n\n        km = pk.keymaterial\n        ct = ECDHCipherText()\n")
+
+# ---- twins produced by an independent refactoring agent that were noisy before the value-based rules / engine normal forms
+T('C13', 'ag-pkesk-extend-tuple-const', PK, "__all__ = ['PKESessionKey',",
+  "# RFC 4880 5.1: the session key checksum is taken modulo 65536\n_SK_CHECKSUM_MOD = 1 << 16\n\n__all__ = ['PKESessionKey',",
+  more=[(PK, '        m = bytearray(self.int_to_bytes(symalg) + symkey)\n        m += self.int_to_bytes(sum(bytearray(symkey)) % 65536, 2)\n\n        if self.pkalg == PubKeyAlgorithm.RSAEncryptOrSign:\n            encrypter = pk.keymaterial.__pubkey__().encrypt\n            encargs = (bytes(m), padding.PKCS1v15(),)\n\n        elif self.pkalg == PubKeyAlgorithm.ECDH:\n            encrypter = pk\n            encargs = (bytes(m),)\n\n        else:\n            raise NotImplementedError(self.pkalg)\n\n        self.ct = self.ct.encrypt(encrypter, *encargs)', '        block = bytearray(self.int_to_bytes(symalg) + symkey)\n        cksum = sum(bytearray(symkey)) % _SK_CHECKSUM_MOD\n        block.extend(self.int_to_bytes(cksum, 2))\n\n        if self.pkalg == PubKeyAlgorithm.RSAEncryptOrSign:\n            fn, fnargs = pk.keymaterial.__pubkey__().encrypt, (bytes(block), padding.PKCS1v15())\n\n        elif self.pkalg == PubKeyAlgorithm.ECDH:\n            fn, fnargs = pk, (bytes(block),)\n\n        else:\n            raise NotImplementedError(self.pkalg)\n\n        self.ct = self.ct.encrypt(fn, *fnargs)')])
+T('C03', 'ag-skesk-parse-slice-assign', PK, '        _bytes = bytearray()\n        _bytes += super(SKESessionKeyV4, self).__bytearray__()\n        _bytes += self.s2k.__bytearray__()[1:]\n        _bytes += self.ct\n        return _bytes',
+  '        hdr = super(SKESessionKeyV4, self).__bytearray__()\n        # the S2K usage octet is not part of this packet\n        s2k_spec = self.s2k.__bytearray__()[1:]\n        return bytearray(hdr) + s2k_spec + self.ct',
+  more=[(PK, '        packet.insert(0, 255)\n        self.s2k.parse(packet, iv=False)\n\n        ctend = self.header.length - len(self.s2k)\n        self.ct = packet[:ctend]\n        del packet[:ctend]', "        packet.insert(0, 0xFF)\n        self.s2k.parse(packet, False)\n\n        esk_len = self.header.length - len(self.s2k)\n        self.ct, packet[:esk_len] = packet[:esk_len], b''")])
+T('C03', 'ag-symenc-condexpr-bytesn-kwargs', SE, "    if iv is None:\n        iv = b'\\x00' * (alg.block_size // 8)",
+  '    iv = bytes(alg.block_size // 8) if iv is None else iv',
+  more=[(SE, '        encryptor = Cipher(alg.cipher(key), modes.CFB(iv), default_backend()).encryptor()', '        cfb = Cipher(algorithm=alg.cipher(key), mode=modes.CFB(iv), backend=default_backend())\n        encryptor = cfb.encryptor()'),
+        (SE, "        iv = b'\\x00' * (alg.block_size // 8)\n\n    try:\n        decryptor = Cipher(alg.cipher(key), modes.CFB(iv), default_backend()).decryptor()", '        iv = bytes(alg.block_size // 8)\n\n    try:\n        cfb = Cipher(algorithm=alg.cipher(key), mode=modes.CFB(iv), backend=default_backend())\n        decryptor = cfb.decryptor()')])
+T('C03', 'ag-eckdf-join-hashcls-temp', FL, "        data = bytearray()\n        data += encoder.encode(curve.value)[1:]\n        data.append(pkalg)\n        data += b'\\x03\\x01'\n        data.append(self.halg)\n        data.append(self.encalg)\n        data += b'Anonymous Sender    '\n        data += binascii.unhexlify(fingerprint.replace(' ', ''))\n\n        ckdf = ConcatKDFHash(algorithm=getattr(hashes, self.halg.name)(), length=self.encalg.key_size // 8, otherinfo=bytes(data), backend=default_backend())",
+  "        param = b''.join([\n            encoder.encode(curve.value)[1:],\n            bytes([pkalg, 0x03, 0x01, self.halg, self.encalg]),\n            b'Anonymous Sender    ',\n            binascii.unhexlify(fingerprint.replace(' ', '')),\n        ])\n\n        hash_cls = getattr(hashes, self.halg.name)\n        kek_len = self.encalg.key_size // 8\n        ckdf = ConcatKDFHash(algorithm=hash_cls(), length=kek_len, otherinfo=param, backend=default_backend())")
+T('C03', 'ag-ecdh-decrypt-swap-extend-list', FL, '        if km.oid == EllipticCurveOID.Curve25519:\n            v = x25519.X25519PublicKey.from_public_bytes(self.p.x)\n            s = km.__privkey__().exchange(v)\n        else:\n            # assemble the public component of ephemeral key v\n            v = ec.EllipticCurvePublicNumbers(self.p.x, self.p.y, km.oid.curve()).public_key(default_backend())\n            # compute s using the inverse of how it was derived during encryption\n            s = km.__privkey__().exchange(ec.ECDH(), v)\n\n        # derive the wrapping key\n        z = km.kdf.derive_key(s, km.oid, PubKeyAlgorithm.ECDH, pk.fingerprint)\n\n        # unwrap and unpad m\n        _m = aes_key_unwrap(z, self.c, default_backend())\n\n        padder = PKCS7(64).unpadder()\n        return padder.update(_m) + padder.finalize()',
+  '        if km.oid != EllipticCurveOID.Curve25519:\n            # assemble the public component of ephemeral key v\n            numbers = ec.EllipticCurvePublicNumbers(self.p.x, self.p.y, km.oid.curve())\n            eph_pub = numbers.public_key(default_backend())\n            # compute s using the inverse of how it was derived during encryption\n            shared = km.__privkey__().exchange(ec.ECDH(), eph_pub)\n        else:\n            eph_pub = x25519.X25519PublicKey.from_public_bytes(self.p.x)\n            shared = km.__privkey__().exchange(eph_pub)\n\n        # derive the wrapping key, then unwrap and unpad m\n        kek = km.kdf.derive_key(shared, km.oid, PubKeyAlgorithm.ECDH, pk.fingerprint)\n        padded = aes_key_unwrap(wrapping_key=kek, wrapped_key=self.c, backend=default_backend())\n\n        unpadder = PKCS7(64).unpadder()\n        return unpadder.update(padded) + unpadder.finalize()',
+  more=[(FL, '        _bytes += self.p.to_mpibytes()\n        _bytes.append(len(self.c))\n        _bytes += self.c', '        _bytes.extend(self.p.to_mpibytes())\n        _bytes.extend([len(self.c)])\n        _bytes.extend(self.c)')])
+T('C03', 'ag-compress-elif-consts-wbits-kw', CO, '# this is 50 KiB',
+  '# raw DEFLATE (RFC 1951) streams carry neither the 2-octet zlib header nor the 4-octet Adler-32 trailer\n_ZLIB_HEADER_LEN = 2\n_ZLIB_TRAILER_LEN = 4\n_RAW_DEFLATE_WBITS = -15\n\n# this is 50 KiB',
+  more=[(CO, '            return data\n\n        if self is CompressionAlgorithm.ZIP:\n            return zlib.compress(data)[2:-4]\n\n        if self is CompressionAlgorithm.ZLIB:\n            return zlib.compress(data)\n\n        if self is CompressionAlgorithm.BZ2:\n            return bz2.compress(data)\n\n        raise NotImplementedError(self)\n\n    def decompress(self, data):\n        if self is CompressionAlgorithm.Uncompressed:\n            return data\n\n        if self is CompressionAlgorithm.ZIP:\n            return zlib.decompress(data, -15)\n\n        if self is CompressionAlgorithm.ZLIB:\n            return zlib.decompress(data)\n\n        if self is CompressionAlgorithm.BZ2:\n            return bz2.decompress(data)\n\n        raise NotImplementedError(self)', '            out = data\n\n        elif self is CompressionAlgorithm.ZIP:\n            out = zlib.compress(data)[_ZLIB_HEADER_LEN:-_ZLIB_TRAILER_LEN]\n\n        elif self is CompressionAlgorithm.ZLIB:\n            out = zlib.compress(data)\n\n        elif self is CompressionAlgorithm.BZ2:\n            out = bz2.compress(data)\n\n        else:\n            raise NotImplementedError(self)\n\n        return out\n\n    def decompress(self, data):\n        if self is CompressionAlgorithm.Uncompressed:\n            out = data\n\n        elif self is CompressionAlgorithm.ZIP:\n            out = zlib.decompress(data, wbits=_RAW_DEFLATE_WBITS)\n\n        elif self is CompressionAlgorithm.ZLIB:\n            out = zlib.decompress(data)\n\n        elif self is CompressionAlgorithm.BZ2:\n            out = bz2.decompress(data)\n\n        else:\n            raise NotImplementedError(self)\n\n        return out')])
+T('C03', 'ag-zip-explicit-slice-bound', CO, '# this is 50 KiB',
+  '_RAW_DEFLATE_WBITS = -15\n\n# this is 50 KiB',
+  more=[(CO, '            return zlib.compress(data)[2:-4]', '            zdata = zlib.compress(data)\n            return zdata[2:len(zdata) - 4]'),
+        (CO, '            return zlib.decompress(data, -15)', '            return zlib.decompress(data, _RAW_DEFLATE_WBITS)')])
+T('C13', 'ag-urandom-from-import', CO, 'import warnings',
+  '\nfrom os import urandom\nimport warnings',
+  more=[(CO, '        return os.urandom(self.block_size // 8)\n\n    def gen_key(self):\n        return os.urandom(self.key_size // 8)', '        nbytes = self.block_size // 8\n        return urandom(nbytes)\n\n    def gen_key(self):\n        nbytes = self.key_size // 8\n        return urandom(nbytes)')])
+T('C03', 'ag-select-loop-else-raise', PGP, '        pkesk = next(pk for pk in message._sessionkeys if isinstance(pk, PKESessionKey)\n                     and pk.pkalg == self.key_algorithm and pk.encrypter == self.fingerprint.keyid)',
+  '        for candidate in message._sessionkeys:\n            if not isinstance(candidate, PKESessionKey):\n                continue\n\n            if candidate.pkalg == self.key_algorithm and candidate.encrypter == self.fingerprint.keyid:\n                pkesk = candidate\n                break\n\n        else:\n            raise StopIteration\n')
+T('C03', 'ag-select-loop-var-is-result', PGP, '        pkesk = next(pk for pk in message._sessionkeys if isinstance(pk, PKESessionKey)\n                     and pk.pkalg == self.key_algorithm and pk.encrypter == self.fingerprint.keyid)',
+  '        for pkesk in message._sessionkeys:\n            if (isinstance(pkesk, PKESessionKey)\n                    and pkesk.pkalg == self.key_algorithm and pkesk.encrypter == self.fingerprint.keyid):\n                break\n        else:\n            raise StopIteration')
+T('C13', 'ag-keyblob-tuple-temps-pow-const', FL, '    @property\n    def __mpis__(self):\n        for i in super(PrivKey, self).__mpis__:',
+  '    # RFC 4880 3.7.1.2: salted S2K specifiers carry 8 octets of salt\n    _S2K_SALT_LEN = 2 ** 3\n\n    @property\n    def __mpis__(self):\n        for i in super(PrivKey, self).__mpis__:',
+  more=[(FL, '    def encrypt_keyblob(self, passphrase, enc_alg, hash_alg):\n        # PGPy will only ever use iterated and salted S2k mode\n        self.s2k.usage = 254\n        self.s2k.encalg = enc_alg\n        self.s2k.specifier = String2KeyType.Iterated\n        self.s2k.iv = enc_alg.gen_iv()\n        self.s2k.halg = hash_alg\n        self.s2k.salt = bytearray(os.urandom(8))', '    def _privfield_bytes(self):\n        """the secret MPIs of this key, in packet order"""\n        _bytes = bytearray()\n        for pf in self.__privfields__:\n            _bytes += getattr(self, pf).to_mpibytes()\n        return _bytes\n\n    def encrypt_keyblob(self, passphrase, enc_alg, hash_alg):\n        # PGPy will only ever use iterated and salted S2k mode\n        self.s2k.usage = 254\n        self.s2k.encalg = enc_alg\n        self.s2k.specifier = String2KeyType.Iterated\n        iv, salt = enc_alg.gen_iv(), os.urandom(self._S2K_SALT_LEN)\n        self.s2k.iv, self.s2k.halg, self.s2k.salt = iv, hash_alg, bytearray(salt)'),
+        (FL, "        pt = bytearray()\n        for pf in self.__privfields__:\n            pt += getattr(self, pf).to_mpibytes()\n\n        # append a SHA-1 hash of the plaintext so far to the plaintext\n        pt += hashlib.new('sha1', pt).digest()", "        pt = self._privfield_bytes()\n\n        # append a SHA-1 hash of the plaintext so far to the plaintext\n        sha1 = hashlib.new('sha1', pt).digest()\n        pt += sha1")])
+T('C03', 'ag-seipd-inline-gen-iv', PK, '        iv = alg.gen_iv()',
+  '        # block_size // 8 random octets, then the last two of them once more\n        iv = os.urandom(alg.block_size // 8)')
+T('C13', 'ag-seipd-inline-gen-iv', PK, '        iv = alg.gen_iv()',
+  '        # block_size // 8 random octets, then the last two of them once more\n        iv = os.urandom(alg.block_size // 8)')
+T('C13', 'ag-inline-gen-key', PGP, '            sessionkey = cipher_algo.gen_key()\n        skesk.encrypt_sk(passphrase, sessionkey)',
+  '            sessionkey = os.urandom(cipher_algo.key_size // 8)\n        skesk.encrypt_sk(passphrase, sessionkey)',
+  more=[(PGP, '            sessionkey = cipher_algo.gen_key()', '            sessionkey = os.urandom(cipher_algo.key_size // 8)')])
+T('C03', 'ag-cipher-table-aliases-get', CO, "        bs = {SymmetricKeyAlgorithm.IDEA: algorithms.IDEA,\n              SymmetricKeyAlgorithm.TripleDES: algorithms.TripleDES,\n              SymmetricKeyAlgorithm.CAST5: algorithms.CAST5,\n              SymmetricKeyAlgorithm.Blowfish: algorithms.Blowfish,\n              SymmetricKeyAlgorithm.AES128: algorithms.AES,\n              SymmetricKeyAlgorithm.AES192: algorithms.AES,\n              SymmetricKeyAlgorithm.AES256: algorithms.AES,\n              SymmetricKeyAlgorithm.Twofish256: namedtuple('Twofish256', ['block_size'])(block_size=128),\n              SymmetricKeyAlgorithm.Camellia128: algorithms.Camellia,\n              SymmetricKeyAlgorithm.Camellia192: algorithms.Camellia,\n              SymmetricKeyAlgorithm.Camellia256: algorithms.Camellia}\n\n        if self in bs:\n            return bs[self]\n\n        raise NotImplementedError(repr(self))",
+  "        cls = SymmetricKeyAlgorithm\n        aes, camellia = algorithms.AES, algorithms.Camellia\n        # Twofish is not provided by cryptography; only its block size is known\n        twofish = namedtuple('Twofish256', ['block_size'])(block_size=128)\n\n        impls = {cls.IDEA: algorithms.IDEA,\n                 cls.TripleDES: algorithms.TripleDES,\n                 cls.CAST5: algorithms.CAST5,\n                 cls.Blowfish: algorithms.Blowfish,\n                 cls.AES128: aes, cls.AES192: aes, cls.AES256: aes,\n                 cls.Twofish256: twofish,\n                 cls.Camellia128: camellia, cls.Camellia192: camellia, cls.Camellia256: camellia}\n\n        impl = impls.get(self)\n        if impl is None:\n            raise NotImplementedError(repr(self))\n\n        return impl")
+T('C13', 'ag-cipher-table-aliases-get', CO, "        bs = {SymmetricKeyAlgorithm.IDEA: algorithms.IDEA,\n              SymmetricKeyAlgorithm.TripleDES: algorithms.TripleDES,\n              SymmetricKeyAlgorithm.CAST5: algorithms.CAST5,\n              SymmetricKeyAlgorithm.Blowfish: algorithms.Blowfish,\n              SymmetricKeyAlgorithm.AES128: algorithms.AES,\n              SymmetricKeyAlgorithm.AES192: algorithms.AES,\n              SymmetricKeyAlgorithm.AES256: algorithms.AES,\n              SymmetricKeyAlgorithm.Twofish256: namedtuple('Twofish256', ['block_size'])(block_size=128),\n              SymmetricKeyAlgorithm.Camellia128: algorithms.Camellia,\n              SymmetricKeyAlgorithm.Camellia192: algorithms.Camellia,\n              SymmetricKeyAlgorithm.Camellia256: algorithms.Camellia}\n\n        if self in bs:\n            return bs[self]\n\n        raise NotImplementedError(repr(self))",
+  "        cls = SymmetricKeyAlgorithm\n        aes, camellia = algorithms.AES, algorithms.Camellia\n        # Twofish is not provided by cryptography; only its block size is known\n        twofish = namedtuple('Twofish256', ['block_size'])(block_size=128)\n\n        impls = {cls.IDEA: algorithms.IDEA,\n                 cls.TripleDES: algorithms.TripleDES,\n                 cls.CAST5: algorithms.CAST5,\n                 cls.Blowfish: algorithms.Blowfish,\n                 cls.AES128: aes, cls.AES192: aes, cls.AES256: aes,\n                 cls.Twofish256: twofish,\n                 cls.Camellia128: camellia, cls.Camellia192: camellia, cls.Camellia256: camellia}\n\n        impl = impls.get(self)\n        if impl is None:\n            raise NotImplementedError(repr(self))\n\n        return impl")
+T('C03', 'ag-seipd-quickcheck-len-slice', PK, '        data = iv + iv[-2:] + data',
+  '        quick_check = iv[len(iv) - 2:]\n        data = iv + quick_check + data')
+T('C03', 'ag-select-filter-predicate', PGP, '        pkesk = next(pk for pk in message._sessionkeys if isinstance(pk, PKESessionKey)\n                     and pk.pkalg == self.key_algorithm and pk.encrypter == self.fingerprint.keyid)',
+  '        def is_mine(pk):\n            return (isinstance(pk, PKESessionKey)\n                    and pk.pkalg == self.key_algorithm\n                    and pk.encrypter == self.fingerprint.keyid)\n\n        pkesk = next(filter(is_mine, message._sessionkeys))')
+T('C13', 'ag-geniv-divmod-truediv', CO, '        return os.urandom(self.block_size // 8)\n\n    def gen_key(self):\n        return os.urandom(self.key_size // 8)',
+  '        nbytes, _ = divmod(self.block_size, 8)\n        return os.urandom(nbytes)\n\n    def gen_key(self):\n        bits = self.key_size\n        return os.urandom(int(bits / 8))')
+T('C03', 'ag-compress-dispatch-dict', CO, '        if self is CompressionAlgorithm.ZIP:\n            return zlib.compress(data)[2:-4]\n\n        if self is CompressionAlgorithm.ZLIB:\n            return zlib.compress(data)\n\n        if self is CompressionAlgorithm.BZ2:\n            return bz2.compress(data)',
+  '        codecs = {CompressionAlgorithm.ZIP: lambda d: zlib.compress(d)[2:-4],\n                  CompressionAlgorithm.ZLIB: zlib.compress,\n                  CompressionAlgorithm.BZ2: bz2.compress}\n\n        if self in codecs:\n            return codecs[self](data)',
+  more=[(CO, '        if self is CompressionAlgorithm.ZIP:\n            return zlib.decompress(data, -15)\n\n        if self is CompressionAlgorithm.ZLIB:\n            return zlib.decompress(data)\n\n        if self is CompressionAlgorithm.BZ2:\n            return bz2.decompress(data)', '        codecs = {CompressionAlgorithm.ZIP: lambda d: zlib.decompress(d, -15),\n                  CompressionAlgorithm.ZLIB: zlib.decompress,\n                  CompressionAlgorithm.BZ2: bz2.decompress}\n\n        if self in codecs:\n            return codecs[self](data)')])
+T('C03', 'ag-pkesk-match-statement', PK, '        if self.pkalg == PubKeyAlgorithm.RSAEncryptOrSign:\n            encrypter = pk.keymaterial.__pubkey__().encrypt\n            encargs = (bytes(m), padding.PKCS1v15(),)\n\n        elif self.pkalg == PubKeyAlgorithm.ECDH:\n            encrypter = pk\n            encargs = (bytes(m),)\n\n        else:\n            raise NotImplementedError(self.pkalg)',
+  '        match self.pkalg:\n            case PubKeyAlgorithm.RSAEncryptOrSign:\n                encrypter = pk.keymaterial.__pubkey__().encrypt\n                encargs = (bytes(m), padding.PKCS1v15(),)\n\n            case PubKeyAlgorithm.ECDH:\n                encrypter = pk\n                encargs = (bytes(m),)\n\n            case _:\n                raise NotImplementedError(self.pkalg)')
+T('C03', 'ag-pkesk-checksum-loop', PK, '        m = bytearray(self.int_to_bytes(symalg) + symkey)\n        m += self.int_to_bytes(sum(bytearray(symkey)) % 65536, 2)\n\n        if self.pkalg == PubKeyAlgorithm.RSAEncryptOrSign:\n            encrypter = pk.keymaterial.__pubkey__().encrypt\n            encargs = (bytes(m), padding.PKCS1v15(),)\n\n        elif self.pkalg == PubKeyAlgorithm.ECDH:\n            encrypter = pk\n            encargs = (bytes(m),)',
+  '        body = self.int_to_bytes(symalg) + symkey\n\n        total = 0\n        for octet in bytearray(symkey):\n            total += octet\n\n        m = bytes(body + self.int_to_bytes(total % 65536, 2))\n\n        if self.pkalg == PubKeyAlgorithm.RSAEncryptOrSign:\n            encrypter = pk.keymaterial.__pubkey__().encrypt\n            encargs = (m, padding.PKCS1v15(),)\n\n        elif self.pkalg == PubKeyAlgorithm.ECDH:\n            encrypter = pk\n            encargs = (m,)')
+T('C13', 'ag-ecdh-pad-join-kwargs', FL, '    @classmethod\n    def encrypt(cls, pk, *args):',
+  '    # RFC 6637 section 8: m is PKCS5-padded to a multiple of the 8-octet AES key wrap block\n    _PAD_BLOCK_BITS = 8 * 8\n\n    @classmethod\n    def encrypt(cls, pk, *args):',
+  more=[(FL, '        padder = PKCS7(64).padder()\n        m = padder.update(_m) + padder.finalize()', "        padder = PKCS7(cls._PAD_BLOCK_BITS).padder()\n        m = b''.join((padder.update(_m), padder.finalize()))"),
+        (FL, '        ct.c = aes_key_wrap(z, m, default_backend())', '        ct.c = aes_key_wrap(wrapping_key=z, key_to_wrap=m, backend=default_backend())'),
+        (FL, '        padder = PKCS7(64).unpadder()\n        return padder.update(_m) + padder.finalize()', '        unpadder = PKCS7(self._PAD_BLOCK_BITS).unpadder()\n        head = unpadder.update(_m)\n        return head + unpadder.finalize()')])
+T('C03', 'ag-msg-decrypt-list-early-return', PGP, '        for skesk in iter(sk for sk in self._sessionkeys if isinstance(sk, SKESessionKey)):',
+  '        candidates = [esk for esk in self._sessionkeys if isinstance(esk, SKESessionKey)]\n        for skesk in candidates:',
+  more=[(PGP, '            else:\n                del passphrase\n                break\n\n        else:\n            raise PGPDecryptionError("Decryption failed")\n\n        return decmsg', '            del passphrase\n            return decmsg\n\n        raise PGPDecryptionError("Decryption failed")')])
+T('C03', 'ag-pgp-shared-seipd-builder', PGP, 'class PGPSignature(Armorable, ParentRef, PGPObject):',
+  'def _protect(plaintext, sessionkey, cipher_algo):\n    # wrap serialized packets in a Sym. Encrypted Integrity Protected Data packet\n    skedata = IntegrityProtectedSKEDataV1()\n    skedata.encrypt(sessionkey, cipher_algo, plaintext)\n    return skedata\n\n\nclass PGPSignature(Armorable, ParentRef, PGPObject):',
+  more=[(PGP, '            skedata = IntegrityProtectedSKEDataV1()\n            skedata.encrypt(sessionkey, cipher_algo, self.__bytes__())\n            msg |= skedata', '            msg |= _protect(self.__bytes__(), sessionkey, cipher_algo)'),
+        (PGP, '            skedata = IntegrityProtectedSKEDataV1()\n            skedata.encrypt(sessionkey, cipher_algo, message.__bytes__())\n            _m |= skedata', '            _m |= _protect(message.__bytes__(), sessionkey, cipher_algo)')])
+T('C13', 'ag-key-encrypt-walrus', PGP, "        if sessionkey is None:\n            sessionkey = cipher_algo.gen_key()\n\n        # set up a new PKESessionKeyV3\n        pkesk = PKESessionKeyV3()\n        pkesk.encrypter = bytearray(binascii.unhexlify(self.fingerprint.keyid.encode('latin-1')))\n        pkesk.pkalg = self.key_algorithm\n        pkesk.encrypt_sk(self._key, cipher_algo, sessionkey)",
+  "        if (sk := sessionkey) is None:\n            sk = cipher_algo.gen_key()\n\n        # set up a new PKESessionKeyV3\n        pkesk = PKESessionKeyV3()\n        pkesk.encrypter = bytearray(binascii.unhexlify(self.fingerprint.keyid.encode('latin-1')))\n        pkesk.pkalg = self.key_algorithm\n        pkesk.encrypt_sk(self._key, cipher_algo, sk)",
+  more=[(PGP, '            skedata.encrypt(sessionkey, cipher_algo, message.__bytes__())', '            skedata.encrypt(sk, cipher_algo, message.__bytes__())')])
+# ---- mutants by an independent agent that the rules did not report before (now: result assembly, block size, RSA wiring, point encoding, decrypt side, salted S2K, confinement in _encrypt, ephemeral key)
+M('C03', 'ag-msg-encrypt-attaches-plaintext', PGP, '            msg |= skedata',
+  '            msg |= self', 'C03.7')
+M('C03', 'ag-key-encrypt-attaches-plaintext', PGP, '            _m |= skedata',
+  '            _m |= message', 'C03.7')
+M('C03', 'ag-msg-encrypt-returns-self', PGP, '        return msg\n\n    def decrypt(self, passphrase):',
+  '        return self\n\n    def decrypt(self, passphrase):', 'C03.7')
+M('C03', 'ag-key-encrypt-pkesk-not-attached', PGP, '        _m |= pkesk\n\n        return _m',
+  '        return _m', 'C03.7')
+M('C03', 'ag-msg-encrypt-container-not-attached', PGP, '            msg |= skedata\n',
+  '', 'C03.7')
+M('C03', 'ag-key-encrypt-pkesk-on-input', PGP, '        _m |= pkesk',
+  '        message |= pkesk', 'C03.7')
+M('C03', 'ag-blocksize-is-keysize', CO, '        return self.cipher.block_size',
+  '        return self.key_size', 'C03.4')
+M('C13', 'ag-blocksize-is-keysize', CO, '        return self.cipher.block_size',
+  '        return self.key_size', 'C13.1')
+M('C03', 'ag-ecdh-mapped-to-elgamal-ct', PK, '              PubKeyAlgorithm.ECDH: ECDHCipherText}',
+  '              PubKeyAlgorithm.ECDH: ElGCipherText}', 'C03.1')
+M('C03', 'ag-rsa-ct-little-endian', FL, '        ct.me_mod_n = MPI(cls.bytes_to_int(encfn(*args)))',
+  "        ct.me_mod_n = MPI(int.from_bytes(encfn(*args), 'little'))", 'C03.1')
+M('C03', 'ag-rsa-ct-decrypt-drops-octet', FL, '        return decfn(*args)',
+  '        return decfn(*args)[1:]', 'C03.1')
+M('C03', 'ag-ecdh-point-bitlen-fixed', FL, '            ct.p = ECPoint.from_values(km.oid.key_size, ECPointFormat.Standard, x, y)',
+  '            ct.p = ECPoint.from_values(EllipticCurveOID.NIST_P256.key_size, ECPointFormat.Standard, x, y)', 'C03.5')
+M('C03', 'ag-seipd-no-update-hlen', PK, '        self.update_hlen()\n\n    def decrypt(self, key, alg):',
+  '\n    def decrypt(self, key, alg):', 'C03.2')
+M('C03', 'ag-pkesk-decrypt-keylen-blocksize', PK, '        symkey = m[:symalg.key_size // 8]\n        del m[:symalg.key_size // 8]',
+  '        klen = symalg.block_size // 8\n        symkey = m[:klen]\n        del m[:klen]', 'C03.1')
+M('C03', 'ag-seipd-decrypt-prefix-keysize', PK, '        iv = bytes(pt[:alg.block_size // 8])\n        del pt[:alg.block_size // 8]',
+  '        iv = bytes(pt[:alg.key_size // 8])\n        del pt[:alg.key_size // 8]', 'C03.2')
+M('C03', 'ag-decrypt-container-alg-fixed', PGP, '        decmsg.parse(message.message.decrypt(key, alg))',
+  '        decmsg.parse(message.message.decrypt(key, SymmetricKeyAlgorithm.AES256))', 'C03.7')
+M('C03', 'ag-msg-decrypt-args-swapped', PGP, '                decmsg.parse(self.message.decrypt(key, symalg))',
+  '                decmsg.parse(self.message.decrypt(symalg, key))', 'C03.7')
+M('C03', 'ag-msg-decrypt-no-class-filter', PGP, '        for skesk in iter(sk for sk in self._sessionkeys if isinstance(sk, SKESessionKey)):',
+  '        for skesk in iter(sk for sk in self._sessionkeys):', 'C03.8')
+M('C03', 'ag-select-first-element', PGP, '        pkesk = next(pk for pk in message._sessionkeys if isinstance(pk, PKESessionKey)\n                     and pk.pkalg == self.key_algorithm and pk.encrypter == self.fingerprint.keyid)',
+  '        pkesk = message._sessionkeys[0]', 'C03.8')
+M('C03', 'ag-select-filter-lambda-no-keyid', PGP, '        pkesk = next(pk for pk in message._sessionkeys if isinstance(pk, PKESessionKey)\n                     and pk.pkalg == self.key_algorithm and pk.encrypter == self.fingerprint.keyid)',
+  '        mine = filter(lambda pk: isinstance(pk, PKESessionKey) and pk.pkalg == self.key_algorithm,\n                      message._sessionkeys)\n        pkesk = next(mine)', 'C03.8')
+M('C03', 'ag-select-loop-falls-back', PGP, '        pkesk = next(pk for pk in message._sessionkeys if isinstance(pk, PKESessionKey)\n                     and pk.pkalg == self.key_algorithm and pk.encrypter == self.fingerprint.keyid)',
+  '        pkesk = None\n        for pk in message._sessionkeys:\n            if not isinstance(pk, PKESessionKey):\n                continue\n            if pk.encrypter == self.fingerprint.keyid or pkesk is None:\n                pkesk = pk', 'C03.8')
+M('C13', 'ag-s2k-simple-specifier', PGP, '        skesk.s2k.specifier = 3',
+  '        skesk.s2k.specifier = 0', 'C13.2')
+M('C13', 'ag-leak-symenc-global', SE, '    try:\n        encryptor = Cipher(alg.cipher(key), modes.CFB(iv), default_backend()).encryptor()',
+  '    global _last_key\n    _last_key = key\n    try:\n        encryptor = Cipher(alg.cipher(key), modes.CFB(iv), default_backend()).encryptor()', 'C13.3')
+M('C13', 'ag-leak-symenc-exception-text', SE, '        raise PGPEncryptionError from ex',
+  '        raise PGPEncryptionError("cipher setup failed for key {!r}".format(key)) from ex', 'C13.3')
+M('C13', 'ag-ephemeral-stored-on-ct', FL, '            s = v.exchange(ec.ECDH(), km.__pubkey__())',
+  '            s = v.exchange(ec.ECDH(), km.__pubkey__())\n            ct._v = v', 'C13.2')
+# ---- mutants disguised by a refactoring (helper / temporary introduced AND semantics changed)
+M('C03', 'ag-pkesk-helper-checksum-offbyone', PK, '    def encrypt_sk(self, pk, symalg, symkey):\n        m = bytearray(self.int_to_bytes(symalg) + symkey)\n        m += self.int_to_bytes(sum(bytearray(symkey)) % 65536, 2)',
+  '    def _session_block(self, symalg, symkey):\n        body = bytearray(self.int_to_bytes(symalg) + symkey)\n        chk = sum(body[1:-1]) % 65536\n        return body + self.int_to_bytes(chk, 2)\n\n    def encrypt_sk(self, pk, symalg, symkey):\n        m = self._session_block(symalg, symkey)', 'C03.1')
+M('C03', 'ag-seipd-helper-prefix-first2', PK, '    def encrypt(self, key, alg, data):\n        iv = alg.gen_iv()\n        data = iv + iv[-2:] + data',
+  '    @staticmethod\n    def _random_prefix(alg):\n        block = alg.gen_iv()\n        return block + block[:2]\n\n    def encrypt(self, key, alg, data):\n        data = self._random_prefix(alg) + data', 'C03.2')
+M('C03', 'ag-symenc-helper-default-cfb8', SE, 'def _encrypt(pt, key, alg, iv=None):',
+  'def _cipher(alg, key, iv, mode=modes.CFB8):\n    return Cipher(alg.cipher(key), mode(iv), default_backend())\n\n\ndef _encrypt(pt, key, alg, iv=None):', 'C03.4',
+  more=[(SE, '        encryptor = Cipher(alg.cipher(key), modes.CFB(iv), default_backend()).encryptor()', '        encryptor = _cipher(alg, key, iv, modes.CFB).encryptor()'),
+        (SE, '        decryptor = Cipher(alg.cipher(key), modes.CFB(iv), default_backend()).decryptor()', '        decryptor = _cipher(alg, key, iv).decryptor()')])
+M('C03', 'ag-select-helper-or', PGP, '        pkesk = next(pk for pk in message._sessionkeys if isinstance(pk, PKESessionKey)\n                     and pk.pkalg == self.key_algorithm and pk.encrypter == self.fingerprint.keyid)',
+  '        def _candidates():\n            for pk in message._sessionkeys:\n                if not isinstance(pk, PKESessionKey):\n                    continue\n                if pk.encrypter == self.fingerprint.keyid or pk.pkalg == self.key_algorithm:\n                    yield pk\n        pkesk = next(_candidates())', 'C03.8')
+
+T('C03', 'twin-decrypt-wiring-keywords', PGP, "        decmsg.parse(message.message.decrypt(key, alg))\n\n        return decmsg\n\n    def parse(self, data):", "        recovered = (alg, key)\n        decmsg.parse(message.message.decrypt(alg=recovered[0], key=recovered[1]))\n\n        return decmsg\n\n    def parse(self, data):")
+M('C03', 'decrypt-wiring-cipher-from-own-prefs', PGP, "        decmsg.parse(message.message.decrypt(key, alg))\n\n        return decmsg\n\n    def parse(self, data):", "        decmsg.parse(message.message.decrypt(key, SymmetricKeyAlgorithm.AES256))\n\n        return decmsg\n\n    def parse(self, data):", 'C03.7')
+
+T('C03', 'twin-m-value-int-to-bytes-method', PK, "        m = bytearray(self.int_to_bytes(symalg) + symkey)\n        m += self.int_to_bytes(sum(bytearray(symkey)) % 65536, 2)",
+  "        m = bytearray(symalg.to_bytes(1, 'big') + symkey\n                      + (sum(bytearray(symkey)) % 65536).to_bytes(length=2, byteorder='big'))")
+M('C03', 'm-value-checksum-little-endian', PK, "        m = bytearray(self.int_to_bytes(symalg) + symkey)\n        m += self.int_to_bytes(sum(bytearray(symkey)) % 65536, 2)",
+  "        m = bytearray(symalg.to_bytes(1, 'big') + symkey\n                      + (sum(bytearray(symkey)) % 65536).to_bytes(2, 'little'))", 'C03.1')
+
+T('C03', 'twin-decrypt-recipient-test-inverted', PGP, "        if self.fingerprint.keyid not in message.encrypters:\n            sks = set(self.subkeys)\n            mis = set(message.encrypters)\n            if sks & mis:\n                skid = list(sks & mis)[0]\n                return self.subkeys[skid].decrypt(message)\n\n            raise PGPError(\"Cannot decrypt the provided message with this key\")\n",
+  "        mine = self.fingerprint.keyid\n        if mine in message.encrypters:\n            pass\n        else:\n            sks = set(self.subkeys)\n            mis = set(message.encrypters)\n            if sks & mis:\n                skid = list(sks & mis)[0]\n                return self.subkeys[skid].decrypt(message)\n\n            raise PGPError(\"Cannot decrypt the provided message with this key\")\n")
+T('C16', 'twin-decrypt-recipient-test-inverted', PGP, "        if self.fingerprint.keyid not in message.encrypters:\n            sks = set(self.subkeys)\n            mis = set(message.encrypters)\n            if sks & mis:\n                skid = list(sks & mis)[0]\n                return self.subkeys[skid].decrypt(message)\n\n            raise PGPError(\"Cannot decrypt the provided message with this key\")\n",
+  "        mine = self.fingerprint.keyid\n        if mine in message.encrypters:\n            pass\n        else:\n            sks = set(self.subkeys)\n            mis = set(message.encrypters)\n            if sks & mis:\n                skid = list(sks & mis)[0]\n                return self.subkeys[skid].decrypt(message)\n\n            raise PGPError(\"Cannot decrypt the provided message with this key\")\n")
+
+# ---- round 2 of the independent refactoring agent (noisy before the engine / canonicaliser additions listed in DESIGN 10.9)
+T('C03', 'ag2-pkalg-table-try-else', PK, '        ct = _c.get(self._pkalg, None)\n        self.ct = ct() if ct is not None else ct',
+  '        try:\n            factory = _c[self._pkalg]\n\n        except KeyError:\n            self.ct = None\n\n        else:\n            self.ct = factory()')
+T('C03', 'ag2-pkalg-module-table', PK, 'class PKESessionKey(VersionedPacket):',
+  '_PKESK_CIPHERTEXT = {PubKeyAlgorithm.RSAEncryptOrSign: RSACipherText,\n                     PubKeyAlgorithm.RSAEncrypt: RSACipherText,\n                     PubKeyAlgorithm.ElGamal: ElGCipherText,\n                     PubKeyAlgorithm.FormerlyElGamalEncryptOrSign: ElGCipherText,\n                     PubKeyAlgorithm.ECDH: ECDHCipherText}\n\n\nclass PKESessionKey(VersionedPacket):',
+  more=[(PK, '        _c = {PubKeyAlgorithm.RSAEncryptOrSign: RSACipherText,\n              PubKeyAlgorithm.RSAEncrypt: RSACipherText,\n              PubKeyAlgorithm.ElGamal: ElGCipherText,\n              PubKeyAlgorithm.FormerlyElGamalEncryptOrSign: ElGCipherText,\n              PubKeyAlgorithm.ECDH: ECDHCipherText}\n\n        ct = _c.get(self._pkalg, None)', '        ct = _PKESK_CIPHERTEXT.get(self._pkalg, None)')])
+T('C03', 'ag2-rsact-setattr', FL, '        ct.me_mod_n = MPI(cls.bytes_to_int(encfn(*args)))',
+  "        setattr(ct, 'me_mod_n', MPI(cls.bytes_to_int(encfn(*args))))")
+T('C03', 'ag2-rsact-partial', FL, 'import hashlib',
+  'import functools\nimport hashlib',
+  more=[(FL, '    def encrypt(cls, encfn, *args):\n        ct = cls()\n        ct.me_mod_n = MPI(cls.bytes_to_int(encfn(*args)))\n        return ct\n\n    def decrypt(self, decfn, *args):\n        return decfn(*args)', "    def encrypt(cls, fn, *fnargs):\n        run = functools.partial(fn, *fnargs)\n        ct = cls()\n        ct.me_mod_n = MPI(int.from_bytes(run(), 'big'))\n        return ct\n\n    def decrypt(self, fn, *fnargs):\n        return functools.partial(fn, *fnargs)()")])
+T('C03', 'ag2-mdc-a2b-hex', PK, '        return super(MDC, self).__bytearray__() + binascii.unhexlify(self.mdc)',
+  '        return super(MDC, self).__bytearray__() + binascii.a2b_hex(self.mdc)')
+T('C03', 'ag2-seipd-percent-format', PK, '        data = iv + iv[-2:] + data',
+  "        data = b'%b%b%b' % (iv, iv[-2:], data)")
+T('C03', 'ag2-pkesk-alg-properties', PK, '    def __init__(self):\n        super(PKESessionKeyV3, self).__init__()',
+  '    @property\n    def _is_rsa(self):\n        return self.pkalg == PubKeyAlgorithm.RSAEncryptOrSign\n\n    @property\n    def _is_ecdh(self):\n        return self.pkalg == PubKeyAlgorithm.ECDH\n\n    def __init__(self):\n        super(PKESessionKeyV3, self).__init__()',
+  more=[(PK, '        if self.pkalg == PubKeyAlgorithm.RSAEncryptOrSign:\n            encrypter = pk.keymaterial.__pubkey__().encrypt\n            encargs = (bytes(m), padding.PKCS1v15(),)\n\n        elif self.pkalg == PubKeyAlgorithm.ECDH:', '        if self._is_rsa:\n            encrypter = pk.keymaterial.__pubkey__().encrypt\n            encargs = (bytes(m), padding.PKCS1v15(),)\n\n        elif self._is_ecdh:')])
+T('C03', 'ag2-pkesk-type-ct-classmethod', PK, '        self.ct = self.ct.encrypt(encrypter, *encargs)',
+  '        self.ct = type(self.ct).encrypt(encrypter, *encargs)')
+T('C03', 'ag2-pkesk-decrypt-star-tuple-call', PK, '        m = bytearray(self.ct.decrypt(decrypter, *decargs))',
+  '        m = bytearray(self.ct.decrypt(*(decrypter, *decargs)))')
+T('C03', 'ag2-skesk-parse-slice-forms', PK, '        _bytes = bytearray()\n        _bytes += super(SKESessionKeyV4, self).__bytearray__()\n        _bytes += self.s2k.__bytearray__()[1:]\n        _bytes += self.ct\n        return _bytes',
+  '        return bytearray().join((super(SKESessionKeyV4, self).__bytearray__(),\n                                 self.s2k.__bytearray__()[1:],\n                                 self.ct))',
+  more=[(PK, '        packet.insert(0, 255)\n        self.s2k.parse(packet, iv=False)\n\n        ctend = self.header.length - len(self.s2k)\n        self.ct = packet[:ctend]\n        del packet[:ctend]', "        packet[:0] = b'\\xff'\n        self.s2k.parse(packet, iv=False)\n\n        ctend = self.header.length - len(self.s2k)\n        self.ct, packet[:] = packet[:ctend], packet[ctend:]")])
+T('C03', 'ag2-symenc-zero-iv-lambda-kwonly', SE, "def _encrypt(pt, key, alg, iv=None):\n    if iv is None:\n        iv = b'\\x00' * (alg.block_size // 8)",
+  "_zero_iv = lambda alg: b'\\x00' * (alg.block_size // 8)  # noqa: E731\n\n\ndef _encrypt(pt, key, alg, iv=None, *, _backend=default_backend):\n    if iv is None:\n        iv = _zero_iv(alg)",
+  more=[(SE, '        encryptor = Cipher(alg.cipher(key), modes.CFB(iv), default_backend()).encryptor()', '        encryptor = Cipher(alg.cipher(key), modes.CFB(iv), _backend()).encryptor()'),
+        (SE, 'def _decrypt(ct, key, alg, iv=None):', 'def _decrypt(ct, key, alg, iv=None, *, _backend=default_backend):'),
+        (SE, "        iv = b'\\x00' * (alg.block_size // 8)\n\n    try:\n        decryptor = Cipher(alg.cipher(key), modes.CFB(iv), default_backend()).decryptor()", '        iv = _zero_iv(alg)\n\n    try:\n        decryptor = Cipher(alg.cipher(key), modes.CFB(iv), _backend()).decryptor()')])
+T('C03', 'ag2-eckdf-split-join-fingerprint', FL, "        data += binascii.unhexlify(fingerprint.replace(' ', ''))",
+  "        data += binascii.unhexlify(''.join(fingerprint.split(' ')))")
+T('C03', 'ag2-compress-import-aliases', CO, 'import bz2\nimport hashlib\nimport imghdr\nimport os\nimport zlib\nimport warnings',
+  'import hashlib\nimport imghdr\nimport os\nimport warnings\n\nfrom bz2 import compress as bz2_compress\nfrom bz2 import decompress as bz2_decompress\nfrom zlib import MAX_WBITS\nfrom zlib import compress as zlib_compress\nfrom zlib import decompress as zlib_decompress',
+  more=[(CO, '            return zlib.compress(data)[2:-4]\n\n        if self is CompressionAlgorithm.ZLIB:\n            return zlib.compress(data)\n\n        if self is CompressionAlgorithm.BZ2:\n            return bz2.compress(data)', '            return zlib_compress(data)[2:-4]\n\n        if self is CompressionAlgorithm.ZLIB:\n            return zlib_compress(data)\n\n        if self is CompressionAlgorithm.BZ2:\n            return bz2_compress(data)'),
+        (CO, '            return zlib.decompress(data, -15)\n\n        if self is CompressionAlgorithm.ZLIB:\n            return zlib.decompress(data)\n\n        if self is CompressionAlgorithm.BZ2:\n            return bz2.decompress(data)', '            return zlib_decompress(data, -MAX_WBITS)\n\n        if self is CompressionAlgorithm.ZLIB:\n            return zlib_decompress(data)\n\n        if self is CompressionAlgorithm.BZ2:\n            return bz2_decompress(data)')])
+T('C03', 'ag2-symalg-fromkeys-pairs', CO, "        bs = {SymmetricKeyAlgorithm.IDEA: algorithms.IDEA,\n              SymmetricKeyAlgorithm.TripleDES: algorithms.TripleDES,\n              SymmetricKeyAlgorithm.CAST5: algorithms.CAST5,\n              SymmetricKeyAlgorithm.Blowfish: algorithms.Blowfish,\n              SymmetricKeyAlgorithm.AES128: algorithms.AES,\n              SymmetricKeyAlgorithm.AES192: algorithms.AES,\n              SymmetricKeyAlgorithm.AES256: algorithms.AES,\n              SymmetricKeyAlgorithm.Twofish256: namedtuple('Twofish256', ['block_size'])(block_size=128),\n              SymmetricKeyAlgorithm.Camellia128: algorithms.Camellia,\n              SymmetricKeyAlgorithm.Camellia192: algorithms.Camellia,\n              SymmetricKeyAlgorithm.Camellia256: algorithms.Camellia}",
+  "        bs = dict([(SymmetricKeyAlgorithm.IDEA, algorithms.IDEA),\n                   (SymmetricKeyAlgorithm.TripleDES, algorithms.TripleDES),\n                   (SymmetricKeyAlgorithm.CAST5, algorithms.CAST5),\n                   (SymmetricKeyAlgorithm.Blowfish, algorithms.Blowfish),\n                   (SymmetricKeyAlgorithm.AES128, algorithms.AES),\n                   (SymmetricKeyAlgorithm.AES192, algorithms.AES),\n                   (SymmetricKeyAlgorithm.AES256, algorithms.AES),\n                   (SymmetricKeyAlgorithm.Twofish256, namedtuple('Twofish256', ['block_size'])(block_size=128)),\n                   (SymmetricKeyAlgorithm.Camellia128, algorithms.Camellia),\n                   (SymmetricKeyAlgorithm.Camellia192, algorithms.Camellia),\n                   (SymmetricKeyAlgorithm.Camellia256, algorithms.Camellia)])",
+  more=[(CO, '        return self.cipher.block_size\n\n    @property\n    def key_size(self):\n        ks = {SymmetricKeyAlgorithm.IDEA: 128,\n              SymmetricKeyAlgorithm.TripleDES: 192,\n              SymmetricKeyAlgorithm.CAST5: 128,\n              SymmetricKeyAlgorithm.Blowfish: 128,\n              SymmetricKeyAlgorithm.AES128: 128,\n              SymmetricKeyAlgorithm.AES192: 192,\n              SymmetricKeyAlgorithm.AES256: 256,\n              SymmetricKeyAlgorithm.Twofish256: 256,\n              SymmetricKeyAlgorithm.Camellia128: 128,\n              SymmetricKeyAlgorithm.Camellia192: 192,\n              SymmetricKeyAlgorithm.Camellia256: 256}', "        cipher = self.cipher\n        return getattr(cipher, 'block_size')\n\n    @property\n    def key_size(self):\n        ks = {**dict.fromkeys((SymmetricKeyAlgorithm.IDEA,\n                               SymmetricKeyAlgorithm.CAST5,\n                               SymmetricKeyAlgorithm.Blowfish,\n                               SymmetricKeyAlgorithm.AES128,\n                               SymmetricKeyAlgorithm.Camellia128), 128),\n              **dict.fromkeys((SymmetricKeyAlgorithm.TripleDES,\n                               SymmetricKeyAlgorithm.AES192,\n                               SymmetricKeyAlgorithm.Camellia192), 192),\n              **dict.fromkeys((SymmetricKeyAlgorithm.AES256,\n                               SymmetricKeyAlgorithm.Twofish256,\n                               SymmetricKeyAlgorithm.Camellia256), 256)}")])
+T('C13', 'ag2-symalg-fromkeys-pairs', CO, "        bs = {SymmetricKeyAlgorithm.IDEA: algorithms.IDEA,\n              SymmetricKeyAlgorithm.TripleDES: algorithms.TripleDES,\n              SymmetricKeyAlgorithm.CAST5: algorithms.CAST5,\n              SymmetricKeyAlgorithm.Blowfish: algorithms.Blowfish,\n              SymmetricKeyAlgorithm.AES128: algorithms.AES,\n              SymmetricKeyAlgorithm.AES192: algorithms.AES,\n              SymmetricKeyAlgorithm.AES256: algorithms.AES,\n              SymmetricKeyAlgorithm.Twofish256: namedtuple('Twofish256', ['block_size'])(block_size=128),\n              SymmetricKeyAlgorithm.Camellia128: algorithms.Camellia,\n              SymmetricKeyAlgorithm.Camellia192: algorithms.Camellia,\n              SymmetricKeyAlgorithm.Camellia256: algorithms.Camellia}",
+  "        bs = dict([(SymmetricKeyAlgorithm.IDEA, algorithms.IDEA),\n                   (SymmetricKeyAlgorithm.TripleDES, algorithms.TripleDES),\n                   (SymmetricKeyAlgorithm.CAST5, algorithms.CAST5),\n                   (SymmetricKeyAlgorithm.Blowfish, algorithms.Blowfish),\n                   (SymmetricKeyAlgorithm.AES128, algorithms.AES),\n                   (SymmetricKeyAlgorithm.AES192, algorithms.AES),\n                   (SymmetricKeyAlgorithm.AES256, algorithms.AES),\n                   (SymmetricKeyAlgorithm.Twofish256, namedtuple('Twofish256', ['block_size'])(block_size=128)),\n                   (SymmetricKeyAlgorithm.Camellia128, algorithms.Camellia),\n                   (SymmetricKeyAlgorithm.Camellia192, algorithms.Camellia),\n                   (SymmetricKeyAlgorithm.Camellia256, algorithms.Camellia)])",
+  more=[(CO, '        return self.cipher.block_size\n\n    @property\n    def key_size(self):\n        ks = {SymmetricKeyAlgorithm.IDEA: 128,\n              SymmetricKeyAlgorithm.TripleDES: 192,\n              SymmetricKeyAlgorithm.CAST5: 128,\n              SymmetricKeyAlgorithm.Blowfish: 128,\n              SymmetricKeyAlgorithm.AES128: 128,\n              SymmetricKeyAlgorithm.AES192: 192,\n              SymmetricKeyAlgorithm.AES256: 256,\n              SymmetricKeyAlgorithm.Twofish256: 256,\n              SymmetricKeyAlgorithm.Camellia128: 128,\n              SymmetricKeyAlgorithm.Camellia192: 192,\n              SymmetricKeyAlgorithm.Camellia256: 256}', "        cipher = self.cipher\n        return getattr(cipher, 'block_size')\n\n    @property\n    def key_size(self):\n        ks = {**dict.fromkeys((SymmetricKeyAlgorithm.IDEA,\n                               SymmetricKeyAlgorithm.CAST5,\n                               SymmetricKeyAlgorithm.Blowfish,\n                               SymmetricKeyAlgorithm.AES128,\n                               SymmetricKeyAlgorithm.Camellia128), 128),\n              **dict.fromkeys((SymmetricKeyAlgorithm.TripleDES,\n                               SymmetricKeyAlgorithm.AES192,\n                               SymmetricKeyAlgorithm.Camellia192), 192),\n              **dict.fromkeys((SymmetricKeyAlgorithm.AES256,\n                               SymmetricKeyAlgorithm.Twofish256,\n                               SymmetricKeyAlgorithm.Camellia256), 256)}")])
+T('C03', 'ag2-msg-decrypt-filter-named-pred', PGP, '        for skesk in iter(sk for sk in self._sessionkeys if isinstance(sk, SKESessionKey)):',
+  '        def _is_skesk(sk):\n            return isinstance(sk, SKESessionKey)\n\n        for skesk in filter(_is_skesk, self._sessionkeys):')
+T('C03', 'ag2-key-decrypt-star-reversed', PGP, '        alg, key = pkesk.decrypt_sk(self._key)\n\n        # now that we have the symmetric cipher used and the key, we can decrypt the actual message\n        decmsg = PGPMessage()\n        decmsg.parse(message.message.decrypt(key, alg))',
+  '        unwrapped = pkesk.decrypt_sk(self._key)\n\n        # now that we have the symmetric cipher used and the key, we can decrypt the actual message\n        decmsg = PGPMessage()\n        decmsg.parse(message.message.decrypt(*reversed(unwrapped)))')
+T('C03', 'ag2-key-decrypt-nested-def-predicate', PGP, '        pkesk = next(pk for pk in message._sessionkeys if isinstance(pk, PKESessionKey)\n                     and pk.pkalg == self.key_algorithm and pk.encrypter == self.fingerprint.keyid)',
+  '        def _addressed_to_me(pk):\n            if not isinstance(pk, PKESessionKey):\n                return False\n            return pk.pkalg == self.key_algorithm and pk.encrypter == self.fingerprint.keyid\n\n        pkesk = next(pk for pk in message._sessionkeys if _addressed_to_me(pk))')
+T('C03', 'ag2-seipd-default-arg-const', PK, "    def encrypt(self, key, alg, data):\n        iv = alg.gen_iv()\n        data = iv + iv[-2:] + data\n\n        mdc = MDC()\n        mdc.mdc = binascii.hexlify(hashlib.new('SHA1', data + b'\\xd3\\x14').digest())",
+  "    def encrypt(self, key, alg, data, _mdc_header=b'\\xd3\\x14'):\n        iv = alg.gen_iv()\n        data = iv + iv[-2:] + data\n\n        mdc = MDC()\n        mdc.mdc = binascii.hexlify(hashlib.new('SHA1', data + _mdc_header).digest())")
+T('C03', 'ag2-ecdh-closures-condexpr', FL, '        if km.oid == EllipticCurveOID.Curve25519:\n            v = x25519.X25519PrivateKey.generate()\n            x = v.public_key().public_bytes(encoding=serialization.Encoding.Raw, format=serialization.PublicFormat.Raw)\n            ct.p = ECPoint.from_values(km.oid.key_size, ECPointFormat.Native, x)\n            s = v.exchange(km.__pubkey__())\n        else:\n            v = ec.generate_private_key(km.oid.curve(), default_backend())\n            x = MPI(v.public_key().public_numbers().x)\n            y = MPI(v.public_key().public_numbers().y)\n            ct.p = ECPoint.from_values(km.oid.key_size, ECPointFormat.Standard, x, y)\n            s = v.exchange(ec.ECDH(), km.__pubkey__())',
+  '        def _x25519():\n            v = x25519.X25519PrivateKey.generate()\n            x = v.public_key().public_bytes(encoding=serialization.Encoding.Raw, format=serialization.PublicFormat.Raw)\n            return ECPoint.from_values(km.oid.key_size, ECPointFormat.Native, x), v.exchange(km.__pubkey__())\n\n        def _weierstrass():\n            v = ec.generate_private_key(km.oid.curve(), default_backend())\n            x = MPI(v.public_key().public_numbers().x)\n            y = MPI(v.public_key().public_numbers().y)\n            return ECPoint.from_values(km.oid.key_size, ECPointFormat.Standard, x, y), v.exchange(ec.ECDH(), km.__pubkey__())\n\n        ct.p, s = _x25519() if km.oid == EllipticCurveOID.Curve25519 else _weierstrass()')
+T('C13', 'ag2-ecdh-closures-condexpr', FL, '        if km.oid == EllipticCurveOID.Curve25519:\n            v = x25519.X25519PrivateKey.generate()\n            x = v.public_key().public_bytes(encoding=serialization.Encoding.Raw, format=serialization.PublicFormat.Raw)\n            ct.p = ECPoint.from_values(km.oid.key_size, ECPointFormat.Native, x)\n            s = v.exchange(km.__pubkey__())\n        else:\n            v = ec.generate_private_key(km.oid.curve(), default_backend())\n            x = MPI(v.public_key().public_numbers().x)\n            y = MPI(v.public_key().public_numbers().y)\n            ct.p = ECPoint.from_values(km.oid.key_size, ECPointFormat.Standard, x, y)\n            s = v.exchange(ec.ECDH(), km.__pubkey__())',
+  '        def _x25519():\n            v = x25519.X25519PrivateKey.generate()\n            x = v.public_key().public_bytes(encoding=serialization.Encoding.Raw, format=serialization.PublicFormat.Raw)\n            return ECPoint.from_values(km.oid.key_size, ECPointFormat.Native, x), v.exchange(km.__pubkey__())\n\n        def _weierstrass():\n            v = ec.generate_private_key(km.oid.curve(), default_backend())\n            x = MPI(v.public_key().public_numbers().x)\n            y = MPI(v.public_key().public_numbers().y)\n            return ECPoint.from_values(km.oid.key_size, ECPointFormat.Standard, x, y), v.exchange(ec.ECDH(), km.__pubkey__())\n\n        ct.p, s = _x25519() if km.oid == EllipticCurveOID.Curve25519 else _weierstrass()')
+T('C03', 'ag2-key-encrypt-partial-bound-method', PGP, '        pkesk.encrypt_sk(self._key, cipher_algo, sessionkey)',
+  '        wrap = pkesk.encrypt_sk\n        wrap(self._key, cipher_algo, sessionkey)',
+  more=[(PGP, '            skedata.encrypt(sessionkey, cipher_algo, message.__bytes__())', '            seal = functools.partial(skedata.encrypt, sessionkey, cipher_algo)\n            seal(message.__bytes__())')])
+T('C13', 'ag2-key-encrypt-partial-bound-method', PGP, '        pkesk.encrypt_sk(self._key, cipher_algo, sessionkey)',
+  '        wrap = pkesk.encrypt_sk\n        wrap(self._key, cipher_algo, sessionkey)',
+  more=[(PGP, '            skedata.encrypt(sessionkey, cipher_algo, message.__bytes__())', '            seal = functools.partial(skedata.encrypt, sessionkey, cipher_algo)\n            seal(message.__bytes__())')])
+T('C03', 'ag2-header-init-setattr-loop', TY, '    def __init__(self):\n        super(Header, self).__init__()\n        self._len = 1\n        self._llen = 1\n        self._lenfmt = 1\n        self._partial = False',
+  "    def __init__(self, _newfmt=1):\n        super(Header, self).__init__()\n        for name, value in (('_len', 1), ('_llen', 1), ('_lenfmt', _newfmt), ('_partial', False)):\n            setattr(self, name, value)")
+T('C03', 'ag2-symenc-zero-iv-to-bytes-ljust', SE, "        iv = b'\\x00' * (alg.block_size // 8)\n\n    if alg.is_insecure:",
+  "        iv = (0).to_bytes(alg.block_size // 8, 'big')\n\n    if alg.is_insecure:",
+  more=[(SE, "        iv = b'\\x00' * (alg.block_size // 8)", "        iv = b''.ljust(alg.block_size // 8, b'\\x00')")])
+T('C03', 'ag2-pkesk-checksum-reduce-divmod', PK, 'import hashlib',
+  'import functools\nimport hashlib\nimport operator',
+  more=[(PK, '        m += self.int_to_bytes(sum(bytearray(symkey)) % 65536, 2)', '        _, checksum = divmod(functools.reduce(operator.add, bytearray(symkey), 0), 65536)\n        m += self.int_to_bytes(checksum, 2)')])
+T('C13', 'ag2-pkesk-checksum-reduce-divmod', PK, 'import hashlib',
+  'import functools\nimport hashlib\nimport operator',
+  more=[(PK, '        m += self.int_to_bytes(sum(bytearray(symkey)) % 65536, 2)', '        _, checksum = divmod(functools.reduce(operator.add, bytearray(symkey), 0), 65536)\n        m += self.int_to_bytes(checksum, 2)')])
+T('C03', 'ag2-decompress-partial-dispatch', CO, 'import hashlib',
+  'import functools\nimport hashlib',
+  more=[(CO, '        if self is CompressionAlgorithm.Uncompressed:\n            return data\n\n        if self is CompressionAlgorithm.ZIP:\n            return zlib.decompress(data, -15)\n\n        if self is CompressionAlgorithm.ZLIB:\n            return zlib.decompress(data)\n\n        if self is CompressionAlgorithm.BZ2:\n            return bz2.decompress(data)\n\n        raise NotImplementedError(self)', '        inflaters = {CompressionAlgorithm.ZIP: functools.partial(zlib.decompress, wbits=-15),\n                     CompressionAlgorithm.ZLIB: zlib.decompress,\n                     CompressionAlgorithm.BZ2: bz2.decompress}\n\n        if self is CompressionAlgorithm.Uncompressed:\n            return data\n\n        if self not in inflaters:\n            raise NotImplementedError(self)\n\n        return inflaters[self](data)')])
+T('C03', 'ag2-header-operator-or', PT, '\nfrom ..constants import PacketTag',
+  'import operator\n\nfrom ..constants import PacketTag',
+  more=[(PT, '        tag = 0x80 | (self._lenfmt << 6)\n        tag |= (self.tag) if self._lenfmt else ((self.tag << 2) | {1: 0, 2: 1, 4: 2, 0: 3}[self.llen])', '        tag = operator.or_(0x80, self._lenfmt << 6)\n        tag = operator.or_(tag, (self.tag) if self._lenfmt else ((self.tag << 2) | {1: 0, 2: 1, 4: 2, 0: 3}[self.llen]))')])
+T('C13', 'ag2-geniv-operator-floordiv', CO, 'import os',
+  'import operator\nimport os',
+  more=[(CO, '        return os.urandom(self.block_size // 8)\n\n    def gen_key(self):\n        return os.urandom(self.key_size // 8)', '        return bytes(os.urandom(operator.floordiv(self.block_size, 8)))\n\n    def gen_key(self):\n        return bytes(os.urandom(operator.floordiv(self.key_size, 8)))')])
+T('C13', 'ag2-geniv-getattr-urandom', CO, '    def gen_iv(self):\n        return os.urandom(self.block_size // 8)\n\n    def gen_key(self):\n        return os.urandom(self.key_size // 8)',
+  "    @staticmethod\n    def _octets(bits):\n        return bits // 8\n\n    def gen_iv(self):\n        return getattr(os, 'urandom')(self._octets(bits=self.block_size))\n\n    def gen_key(self):\n        return getattr(os, 'urandom')(self._octets(bits=self.key_size))")
+T('C13', 'ag2-keyblob-urandom-alias', FL, '        self.s2k.iv = enc_alg.gen_iv()\n        self.s2k.halg = hash_alg\n        self.s2k.salt = bytearray(os.urandom(8))',
+  '        rand = os.urandom\n        self.s2k.iv = enc_alg.gen_iv()\n        self.s2k.halg = hash_alg\n        salt = rand(8)\n        self.s2k.salt = bytearray(salt)')
+T('C13', 'ag2-geniv-inline-blocksize', CO, '        return os.urandom(self.block_size // 8)\n\n    def gen_key(self):\n        return os.urandom(self.key_size // 8)',
+  '        return os.urandom(self.cipher.block_size // 8)\n\n    def gen_key(self):\n        # every key size in the table is a whole number of octets\n        return os.urandom((self.key_size + 7) // 8)')
+# ---- round 2 of the independent mutation agent: gaps closed (captured secrets, point coordinates, result object, re-addressing arm, parse order, ...)
+M('C13', 'ag2-key-captured-in-closure', PK, '        self.update_hlen()\n\n    def decrypt(self, key, alg):',
+  '        self.reseal = lambda body: _encrypt(body, key, alg)\n        self.update_hlen()\n\n    def decrypt(self, key, alg):', 'C13.3')
+M('C13', 'ag2-ephemeral-captured-in-closure', FL, '        ct.c = aes_key_wrap(z, m, default_backend())',
+  '        ct.c = aes_key_wrap(z, m, default_backend())\n        ct.shared_with = lambda other: v.exchange(ec.ECDH(), other) if km.oid != EllipticCurveOID.Curve25519 else v.exchange(other)', 'C13.2')
+M('C13', 'ag2-key-in-stored-genexp', PK, '        self.update_hlen()\n\n    def decrypt(self, key, alg):',
+  '        self._more = (_encrypt(chunk, key, alg) for chunk in ())\n        self.update_hlen()\n\n    def decrypt(self, key, alg):', 'C13.3')
+M('C13', 'ag2-lambda-default-binds-key', PK, '        self.update_hlen()\n\n    def decrypt(self, key, alg):',
+  '        self.reseal = lambda body, _k=key, _a=alg: _encrypt(body, _k, _a)\n        self.update_hlen()\n\n    def decrypt(self, key, alg):', 'C13.3')
+M('C13', 'ag2-inner-class-captures-key', PK, '        self.update_hlen()\n\n    def decrypt(self, key, alg):',
+  '\n        class _Params(object):\n            cipher = alg\n            secret = key\n        self.params = _Params\n        self.update_hlen()\n\n    def decrypt(self, key, alg):', 'C13.3')
+M('C13', 'ag2-function-attr-closure', SE, '    if alg.is_insecure:',
+  '    _encrypt.replay = lambda data: Cipher(alg.cipher(key), modes.CFB(iv), default_backend()).encryptor().update(data)\n\n    if alg.is_insecure:', 'C13.3')
+M('C13', 'ag2-assert-message-key', PGP, '        # set up a new PKESessionKeyV3',
+  '        assert len(sessionkey) == cipher_algo.key_size // 8, sessionkey\n\n        # set up a new PKESessionKeyV3', 'C13.3')
+M('C13', 'ag2-locals-snapshot', PGP, '        return msg\n\n    def decrypt(self, passphrase):',
+  '        msg._origin = dict(locals())\n        return msg\n\n    def decrypt(self, passphrase):', 'C13.3')
+M('C13', 'ag2-genkey-alias-of-geniv', CO, '    def gen_key(self):\n        return os.urandom(self.key_size // 8)',
+  '    gen_key = gen_iv', 'C13.1')
+M('C03', 'ag2-ecdh-point-xy-swapped', FL, '            x = MPI(v.public_key().public_numbers().x)\n            y = MPI(v.public_key().public_numbers().y)\n            ct.p = ECPoint.from_values(km.oid.key_size, ECPointFormat.Standard, x, y)',
+  '            pn = v.public_key().public_numbers()\n            px, py = MPI(pn.y), MPI(pn.x)\n            ct.p = ECPoint.from_values(km.oid.key_size, ECPointFormat.Standard, px, py)', 'C03.5')
+M('C03', 'ag2-ecdh-decrypt-point-kwargs-swapped', FL, '            v = ec.EllipticCurvePublicNumbers(self.p.x, self.p.y, km.oid.curve()).public_key(default_backend())',
+  '            v = ec.EllipticCurvePublicNumbers(x=self.p.y, y=self.p.x, curve=km.oid.curve()).public_key(default_backend())', 'C03.5')
+M('C03', 'ag2-x25519-point-bytes-reversed', FL, '            ct.p = ECPoint.from_values(km.oid.key_size, ECPointFormat.Native, x)',
+  '            ct.p = ECPoint.from_values(km.oid.key_size, ECPointFormat.Native, x[::-1])', 'C03.5')
+M('C03', 'ag2-x25519-decrypt-point-reversed', FL, '            v = x25519.X25519PublicKey.from_public_bytes(self.p.x)',
+  '            v = x25519.X25519PublicKey.from_public_bytes(bytes(self.p.x)[::-1])', 'C03.5')
+M('C03', 'ag2-rsact-returns-empty-object', FL, '        ct = cls()\n        ct.me_mod_n = MPI(cls.bytes_to_int(encfn(*args)))',
+  '        ct, out = cls(), cls()\n        out.me_mod_n = MPI(cls.bytes_to_int(encfn(*args)))', 'C03.1')
+M('C03', 'ag2-ecdh-c-set-on-class', FL, '        ct.c = aes_key_wrap(z, m, default_backend())',
+  '        cls.c = aes_key_wrap(z, m, default_backend())', 'C03.5')
+M('C03', 'ag2-pkesk-only-in-else-arm', PGP, '\n        _m |= pkesk',
+  '            _m |= pkesk', 'C03.7')
+M('C03', 'ag2-skesk-only-in-plain-arm', PGP, '        msg = PGPMessage() | skesk\n\n        if not self.is_encrypted:\n            skedata = IntegrityProtectedSKEDataV1()\n            skedata.encrypt(sessionkey, cipher_algo, self.__bytes__())\n            msg |= skedata\n\n        else:\n            msg |= self',
+  '        if not self.is_encrypted:\n            msg = PGPMessage() | skesk\n            skedata = IntegrityProtectedSKEDataV1()\n            skedata.encrypt(sessionkey, cipher_algo, self.__bytes__())\n            msg |= skedata\n\n        else:\n            msg = PGPMessage() | self', 'C03.7')
+M('C03', 'ag2-skesk-parse-ctend-before-s2k', PK, '        self.s2k.parse(packet, iv=False)\n\n        ctend = self.header.length - len(self.s2k)',
+  '        ctend = self.header.length - len(self.s2k)\n        self.s2k.parse(packet, iv=False)\n', 'C03.3')
+M('C03', 'ag2-blocksize-table-missing-cast5', CO, '        return self.cipher.block_size',
+  '        narrow = {SymmetricKeyAlgorithm.IDEA, SymmetricKeyAlgorithm.TripleDES, SymmetricKeyAlgorithm.Blowfish}\n        if not self.is_supported:\n            return self.cipher.block_size\n        return 64 if self in narrow else 128', 'C03.4')
+M('C03', 'ag2-select-short-keyid', PGP, '                     and pk.pkalg == self.key_algorithm and pk.encrypter == self.fingerprint.keyid)',
+  '                     and pk.pkalg == self.key_algorithm and pk.encrypter[-8:] == self.fingerprint.keyid[-8:])', 'C03.8')
+
+# ---- wave 2 (held-out seeded mutants) and their kin: split try blocks, tolerated-exception lists, copies where identity matters,
+#      state copied instead of shared, reordered hash input, caches
+TRY1 = ("            try:\n                symalg, key = skesk.decrypt_sk(passphrase)\n                decmsg = PGPMessage()\n                decmsg.parse(self.message.decrypt(key, symalg))\n\n"
+        "            except (TypeError, ValueError, NotImplementedError, PGPDecryptionError):\n                continue\n")
+M('C03', 'decrypt-try-split-second-step-narrower', PGP, TRY1,
+  "            try:\n                symalg, key = skesk.decrypt_sk(passphrase)\n\n            except (TypeError, ValueError, NotImplementedError):\n                continue\n\n"
+  "            try:\n                decmsg = PGPMessage()\n                decmsg.parse(self.message.decrypt(key, symalg))\n\n            except (TypeError, ValueError, PGPDecryptionError):\n                continue\n", 'C03.8')
+M('C03', 'decrypt-try-covers-first-step-only', PGP, TRY1 + "\n            else:\n                del passphrase\n                break\n",
+  "            try:\n                symalg, key = skesk.decrypt_sk(passphrase)\n\n            except (TypeError, ValueError, NotImplementedError, PGPDecryptionError):\n                continue\n\n"
+  "            decmsg = PGPMessage()\n            decmsg.parse(self.message.decrypt(key, symalg))\n            del passphrase\n            break\n", 'C03.8')
+M('C03', 'decrypt-valueerror-no-longer-tolerated', PGP, "            except (TypeError, ValueError, NotImplementedError, PGPDecryptionError):\n                continue\n\n            else:\n                del passphrase",
+  "            except (TypeError, NotImplementedError, PGPDecryptionError):\n                continue\n\n            else:\n                del passphrase", 'C03.8')
+M('C03', 'decrypt-failure-reraised-as-decryption-error', PGP, "            except (TypeError, ValueError, NotImplementedError, PGPDecryptionError):\n                continue\n\n            else:\n                del passphrase",
+  "            except (TypeError, ValueError, NotImplementedError):\n                continue\n\n            except PGPDecryptionError:\n                raise\n\n            else:\n                del passphrase", 'C03.8')
+T('C03', 'twin-decrypt-try-split-same-tolerance', PGP, TRY1,
+  "            wrong_candidate = (TypeError, ValueError, NotImplementedError, PGPDecryptionError)\n            try:\n                symalg, key = skesk.decrypt_sk(passphrase)\n\n            except wrong_candidate:\n                continue\n\n"
+  "            try:\n                decmsg = PGPMessage()\n                decmsg.parse(self.message.decrypt(key, symalg))\n\n            except Exception:\n                continue\n")
+M('C03', 'key-encrypt-readdress-on-a-copy', PGP, "        if message.is_encrypted:  # pragma: no cover\n            _m = message\n", "        if message.is_encrypted:  # pragma: no cover\n            _m = copy.copy(message)\n", 'C03.7')
+M('C03', 'msg-encrypt-readdress-attaches-a-copy', PGP, "        else:\n            msg |= self\n\n        return msg\n\n    def decrypt(self, passphrase):", "        else:\n            msg |= copy.copy(self)\n\n        return msg\n\n    def decrypt(self, passphrase):", 'C03.7')
+M('C03', 'msg-encrypt-skesk-copy-gets-the-key', PGP, "        skesk.encrypt_sk(passphrase, sessionkey)\n        del passphrase\n\n        msg = PGPMessage() | skesk", "        copy.copy(skesk).encrypt_sk(passphrase, sessionkey)\n        del passphrase\n\n        msg = PGPMessage() | skesk", 'C03.7')
+M('C03', 'seipd-mdc-hash-trailer-first', PK, "        mdc.mdc = binascii.hexlify(hashlib.new('SHA1', data + b'\\xd3\\x14').digest())", "        _h = hashlib.new('SHA1', b'\\xd3\\x14')\n        _h.update(data)\n        mdc.mdc = binascii.hexlify(_h.digest())", 'C03.2')
+M('C03', 'seipd-mdc-hash-forked-before-prefix', PK, "        iv = alg.gen_iv()\n        data = iv + iv[-2:] + data\n\n        mdc = MDC()\n        mdc.mdc = binascii.hexlify(hashlib.new('SHA1', data + b'\\xd3\\x14').digest())",
+  "        iv = alg.gen_iv()\n        _base = hashlib.new('SHA1', data)\n        data = iv + iv[-2:] + data\n\n        mdc = MDC()\n        _h = _base.copy()\n        _h.update(iv + iv[-2:] + b'\\xd3\\x14')\n        mdc.mdc = binascii.hexlify(_h.digest())", 'C03.2')
+T('C03', 'twin-seipd-mdc-hash-forked-state', PK, "        mdc.mdc = binascii.hexlify(hashlib.new('SHA1', data + b'\\xd3\\x14').digest())", "        _base = hashlib.new('SHA1', data)\n        _h = _base.copy()\n        _h.update(b'\\xd3\\x14')\n        mdc.mdc = binascii.hexlify(_h.digest())")
+M('C03', 'kdf-param-cached-per-curve', FL, "        ckdf = ConcatKDFHash(algorithm=getattr(hashes, self.halg.name)(), length=self.encalg.key_size // 8, otherinfo=bytes(data), backend=default_backend())",
+  "        data = self.__dict__.setdefault('_param_cache', {}).setdefault(curve, bytes(data))\n        ckdf = ConcatKDFHash(algorithm=getattr(hashes, self.halg.name)(), length=self.encalg.key_size // 8, otherinfo=data, backend=default_backend())", 'C03.5')
+M('C13', 'keyblob-protection-state-taken-over', FL, "    def encrypt_keyblob(self, passphrase, enc_alg, hash_alg):\n        # PGPy will only ever use iterated and salted S2k mode\n        self.s2k.usage = 254",
+  "    def encrypt_keyblob(self, passphrase, enc_alg, hash_alg, reuse=None):\n        # PGPy will only ever use iterated and salted S2k mode\n        self.s2k.usage = 254", 'C13.2',
+  more=[(FL, "        self.s2k.iv = enc_alg.gen_iv()\n        self.s2k.halg = hash_alg\n        self.s2k.salt = bytearray(os.urandom(8))\n", "        self.s2k.iv = enc_alg.gen_iv() if reuse is None else reuse.iv\n        self.s2k.halg = hash_alg\n        self.s2k.salt = bytearray(os.urandom(8)) if reuse is None else reuse.salt\n"),
+        (PK, "        self.keymaterial.encrypt_keyblob(passphrase, enc_alg, hash_alg)\n", "        self.keymaterial.encrypt_keyblob(passphrase, enc_alg, hash_alg, getattr(self, '_protect_like', None))\n")])
+M('C13', 'session-key-cached-per-message', PGP, "        if sessionkey is None:\n            sessionkey = cipher_algo.gen_key()\n\n        # set up a new PKESessionKeyV3",
+  "        if sessionkey is None:\n            sessionkey = message.__dict__.setdefault('_sk', cipher_algo.gen_key())\n\n        # set up a new PKESessionKeyV3", 'C13.2')
+M('C13', 'skesk-salt-shared-with-copy', PK, "        self.s2k.salt = bytearray(os.urandom(8))\n        esk = self.s2k.derive_key(passphrase)", "        self.s2k = copy.copy(self.s2k)\n        self.s2k.salt = self.s2k.salt or bytearray(os.urandom(8))\n        esk = self.s2k.derive_key(passphrase)", 'C13.2')
+
+M('C03', 'pkesk-wire-keyid-truncated', PK, "        _bytes += binascii.unhexlify(self.encrypter.encode())\n        _bytes += bytearray([self.pkalg])", "        _bytes += binascii.unhexlify(self.encrypter.encode()[:8])\n        _bytes += bytearray([self.pkalg])", 'C03.1')
+T('C03', 'twin-pkesk-wire-single-expression', PK, "        _bytes = bytearray()\n        _bytes += super(PKESessionKeyV3, self).__bytearray__()\n        _bytes += binascii.unhexlify(self.encrypter.encode())\n        _bytes += bytearray([self.pkalg])\n        _bytes += self.ct.__bytearray__() if self.ct is not None else b'\\x00' * (self.header.length - 10)\n        return _bytes",
+  "        keyid = binascii.a2b_hex(self.encrypter.encode('ascii'))\n        body = self.ct.__bytearray__() if self.ct is not None else bytes(self.header.length - 10)\n        return b''.join([super(PKESessionKeyV3, self).__bytearray__(), keyid, bytes([self.pkalg]), body])")
 
 # =============================================================================================== C02
 M('C02', 'hash2-last-two', PGP, "        sig._signature.hash2 = bytearray(h2.digest()[:2])", "        sig._signature.hash2 = bytearray(h2.digest()[-2:])", 'C02.2')
@@ -3718,3 +4313,30 @@ for _n, _what, _r in (
         ('C05-mut09', 'canonical-bytes-fresh-subpackets', 'C05.4'), ('C05-mut10', 'capture-kept-only-if-length-differs', 'C05.1'),
         ('C05-mut11', 'update-hlen-drops-capture', 'C05.3')):      # C05-mut12 (sigtype & 0x7f) is the corpus entry 'sigtype-masked'
     _MD(_n[:3], 'stress-G2-%s-%s' % (_n, _what), 'G2-%s.diff' % _n, _r)
+
+
+# =============================================================================================== C02 / C05: load path, caches, cooperating sites, degenerate slices
+_SPP = "        self.subpackets.parse(packet)\n\n        self.hash2 = packet[:2]\n"
+M('C05', 'load-synthesises-hashed-issuer', PK, _SPP, "        self.subpackets.parse(packet)\n\n        if 'Issuer' not in self.subpackets:\n            hfprs = [sp for sp in self.subpackets['h_IssuerFingerprint'] if sp.version == 4]\n            fprs = [sp for sp in self.subpackets['IssuerFingerprint'] if sp.version == 4]\n            if fprs:\n                self.subpackets.addnew('Issuer', hashed=bool(hfprs), _issuer=str((hfprs or fprs)[-1].issuer_fingerprint.keyid))\n\n        self.hash2 = packet[:2]\n", 'C05.1')
+M('C05', 'load-helper-refiles-first-hashed', PK, _SPP, "        self.subpackets.parse(packet)\n        self._dedupe_creation_time()\n\n        self.hash2 = packet[:2]\n", 'C05.1',
+  more=[(PK, "    def update_hlen(self):\n        self.subpackets.update_hlen()\n        super(SignatureV4, self).update_hlen()", "    def _dedupe_creation_time(self):\n        times = self.subpackets['h_CreationTime']\n        if len(times) > 1:\n            self.subpackets['h_CreationTime'] = times[-1]\n\n    def update_hlen(self):\n        self.subpackets.update_hlen()\n        super(SignatureV4, self).update_hlen()")])
+M('C05', 'load-composition-adds-features', PGP, "        if isinstance(other, Signature):\n            if self._signature is None:\n                self._signature = other\n                return self\n",
+  "        if isinstance(other, Signature):\n            if self._signature is None:\n                self._signature = other\n                if not other.subpackets['h_Features']:\n                    other.subpackets.addnew('Features', hashed=True, flags=Features.pgpy_features)\n                return self\n", 'C05.1')
+M('C05', 'load-drops-capture-for-v4-only', PK, _SPP, "        self.subpackets.parse(packet)\n        if self.header.version != 4:\n            self.subpackets._hashed_raw = None\n\n        self.hash2 = packet[:2]\n", 'C05.1')
+M('C05', 'load-normalises-deprecated-rsa-id', PK, "        self.pubalg = packet[0]\n        del packet[0]\n\n        self.halg = packet[0]\n        del packet[0]\n", "        self.pubalg = packet[0]\n        del packet[0]\n        if self.pubalg == PubKeyAlgorithm.RSASign:\n            self.pubalg = PubKeyAlgorithm.RSAEncryptOrSign\n\n        self.halg = packet[0]\n        del packet[0]\n", 'C05.5')
+T('C05', 'twin-load-subpackets-alias-and-unhashed-literal-read', PK, _SPP, "        area = self.subpackets\n        area.parse(packet)\n        _issuers = area['Issuer']\n\n        self.hash2 = packet[:2]\n")
+_REPLAY = "        if self._hashed_raw is not None:\n            # signatures are computed over the octets that were received, not over a re-encoding of them\n            return bytearray(self._hashed_raw)\n\n        _bytes = bytearray()\n        _bytes += self.int_to_bytes(sum(len(sp) for sp in self._hashed_sp.values()), 2)"
+M('C05', 'replay-cache-survives-reparse', FL, _REPLAY, "        if getattr(self, '_hashed_cache', None) is not None:\n            return bytearray(self._hashed_cache)\n        if self._hashed_raw is not None:\n            self._hashed_cache = bytearray(self._hashed_raw)\n            return bytearray(self._hashed_raw)\n\n        _bytes = bytearray()\n        _bytes += self.int_to_bytes(sum(len(sp) for sp in self._hashed_sp.values()), 2)", 'C05.2')
+M('C05', 'replay-cache-attribute-first', FL, _REPLAY, "        if self._hashed_cache is not None:\n            return bytearray(self._hashed_cache)\n        if self._hashed_raw is not None:\n            self._hashed_cache = self._hashed_raw\n            return bytearray(self._hashed_raw)\n\n        _bytes = bytearray()\n        _bytes += self.int_to_bytes(sum(len(sp) for sp in self._hashed_sp.values()), 2)", 'C05.2',
+  more=[(FL, "        self._hashed_raw = None\n\n    def __bytearray__(self):", "        self._hashed_raw = None\n        self._hashed_cache = None\n\n    def __bytearray__(self):")])
+M('C05', 'replay-dirty-flag-two-sites', FL, "        if self._hashed_raw is not None:\n            # signatures", "        if self._hashed_raw is not None and not getattr(self, '_lengths_dirty', False):\n            # signatures", 'C05.2',
+  more=[(FL, "    def update_hlen(self):\n        for sp in self:\n            sp.update_hlen()\n\n    def parse(self, packet):\n        hl =", "    def update_hlen(self):\n        for sp in self:\n            sp.update_hlen()\n        self._lengths_dirty = True\n\n    def parse(self, packet):\n        hl =")])
+M('C05', 'trailer-length-from-parsed-subpackets', PGP, "        hlen = len(hcontext)\n", "        hlen = 4 + 2 + sum(len(sp) for sp in self._signature.subpackets._hashed_sp.values())\n", 'C05.4')
+M('C02', 'trailer-length-from-parsed-subpackets', PGP, "        hlen = len(hcontext)\n", "        hlen = 4 + 2 + sum(len(sp) for sp in self._signature.subpackets._hashed_sp.values())\n", 'C02.1')
+M('C05', 'capture-all-but-tail-degenerates', FL, "        hashed_raw = packet[:2 + hl]", "        hashed_raw = packet[:-(len(packet) - 2 - hl)]", 'C05.1')
+M('C05', 'replay-negative-slice-degenerates', FL, "            return bytearray(self._hashed_raw)\n", "            return bytearray(self._hashed_raw[-(len(self._hashed_raw) - 0):] if False else self._hashed_raw[:2] + self._hashed_raw[-(len(self._hashed_raw) - 2):])\n", 'C05.2')
+M('C02', 'rsa-sig-negative-slice-degenerates', FL, "        return self.md_mod_n.to_mpibytes()[2:]", "        mpi = self.md_mod_n.to_mpibytes()\n        return mpi[-(len(mpi) - 2):]", 'C02.4')
+M('C02', 'hash2-negative-slice-degenerates', PGP, "        sig._signature.hash2 = bytearray(h2.digest()[:2])", "        digest = h2.digest()\n        sig._signature.hash2 = bytearray(digest[:-(len(digest) - 2)])", 'C02.2')
+M('C02', 'key-hashdata-negative-slice-degenerates', PGP, "        return self._uid.__bytearray__()[len(self._uid.header):]", "        body = self._uid.__bytearray__()\n        return body[-(len(body) - len(self._uid.header)):]", 'C02.1b')
+T('C05', 'twin-parse-split-into-two-helpers', FL, "    def parse(self, packet):\n        hl = self.bytes_to_int(packet[:2])\n        hashed_raw = packet[:2 + hl]", "    def parse(self, packet):\n        self._parse_hashed(packet)\n        self._parse_unhashed(packet)\n\n    def _parse_hashed(self, packet):\n        hl = self.bytes_to_int(packet[:2])\n        hashed_raw = packet[:2 + hl]",
+  more=[(FL, "        self._hashed_raw = hashed_raw\n\n        uhl = self.bytes_to_int(packet[:2])", "        self._hashed_raw = hashed_raw\n\n    def _parse_unhashed(self, packet):\n        uhl = self.bytes_to_int(packet[:2])")])
